@@ -1,22 +1,33 @@
 """C01 — emissions inventory balances (bookkeeping shape, not numbers).
 
-R1  sum over sources (T-AGREE): sum_total_emissions ranges over the whole
-    Species enum; the accumulator (whatever local is stored as the species'
-    result) receives exactly one `+=` per source parameter, reduced the way
-    that source's declared value shape demands (array: np.sum / sum / .sum();
-    per-mode values: .sum() or a sum over .values() / .as_array(); scalar:
-    itself; float() looked through), under its own membership test
-    `species in <source>` and nothing else (a condition on another source, an
-    earlier `continue`, … would leave a species the source has out of the
-    total; APU/GSE additionally under their switch); the APU/GSE
-    switches are the ones that gate their computation; the call passes each
-    component's `.emissions` to the parameter of the same name; the only write
-    to the totals afterwards is `[Species.CO2] += x` with the same x stored as
-    lifecycle_co2, under the CO2 and life-cycle switches.
-R2  fuel for exactly those components (T-PAIR): the components whose
-    `.emissions` are summed are exactly those whose `.fuel_burn` enters
-    total_fuel_burn (as `= a.fuel_burn`, `+= b.fuel_burn` or a sum of such
-    terms), each added in the control region of its computation.
+R1  sum over sources (T-AGREE), decided by following sum_total_emissions and compute_emissions *path by path* (a
+    partial evaluator over the AST: known values - strings, tuples, dict displays, records of repository NamedTuple /
+    dataclass classes with their methods and properties, module-level dispatch tables, lambdas, private helpers - are
+    computed, everything else is a symbol denoting its canonical expression; every test on a symbol is enumerated with
+    both outcomes, one value per test text and path; `for species in Species` is run for a generic member).  On every
+    path of sum_total_emissions the total stored for the generic species is a sum in which each source parameter's
+    `<source>[species]` occurs exactly once, reduced the way that source's declared value shape demands (array:
+    np.sum / sum / .sum(); per-mode values: .sum() or a sum over .values() / .as_array(); scalar: itself; float()
+    looked through), exactly when `species in <source>` was tested true on that path (`m.get(k)` / `.get(k, 0.0)` /
+    `is not None` read as that test) - unless a configuration switch under which compute_emissions computes that very
+    source is off.  A source that is left out on a path where it can have the species (a test on another source, on
+    another source's switch, on enabled_species, an `elif`, an early `continue`, a dispatch-table row with the wrong
+    name or flag) is reported with the fewest tests that decide it; so are a source added twice, a term that is no
+    source's amount, a non-zero start, a total stored under a constant key, a species without a stored total, and an
+    accumulator that survives into the next iteration (a second generic iteration is run before the judged one).
+    In compute_emissions, on every path, each parameter of the sum receives the amount map of a component (the
+    `.emissions` of a producer's result - of its own producer get_<source>_emissions when it is a direct call - or of
+    an EmissionsSubset record), the returned Emissions record reports those very maps as <source>_emissions and the
+    same component's indices as <source>_indices, total_emissions is the result of that call, and the only change of
+    the totals afterwards is `[Species.CO2] += x` with the same x reported as lifecycle_co2 (nothing reported where
+    nothing is added), exactly on the paths where the CO2 and life-cycle switches were tested true.
+R2  fuel for exactly those components (T-PAIR), same evaluation: on every path of compute_emissions the value
+    reported as total_fuel_burn (float() looked through; a running total, a sum written out, sum() of a list or
+    generator, a property of a record of the parts) equals, as a linear form over symbols, the sum of the
+    `.fuel_burn` of exactly the components whose `.emissions` are passed to sum_total_emissions - each once, a
+    component that was left as the empty EmissionsSubset counting its 0.0.  Anything else that is added (the end-to-end
+    fuel-mass difference, the sum of the whole per-segment array, another component's fuel twice) and any component
+    fuel that is missing on some path (added under another switch than its computation) is named in the report.
 R3  amount = EI × component fuel (T-PAIR + def-use): per producer, the index
     map, the amount map and the reported fuel are read off the EmissionsSubset
     it returns (whatever the locals are called), and the variable that
@@ -110,6 +121,8 @@ Not decided: finiteness, sign, float rounding, numeric content of any EI.
 from __future__ import annotations
 
 import ast
+import copy as _copy
+import operator as _operator
 from fractions import Fraction
 
 from ..algebra import AlgebraError, normal_form, poly_equal
@@ -125,257 +138,1577 @@ APU = 'emissions/apu.py'
 GSE = 'emissions/gse.py'
 
 
-def rule_sum(ctx):
+# ---------------------------------------------------------------------------------------------------------------------
+# Path-wise partial evaluation of the two bookkeeping functions (R1, R2).
+#
+# compute_emissions and sum_total_emissions are *run* over descriptions of values, one path at a time: what is known
+# (strings, numbers, tuples, dict displays, records of repository NamedTuple / dataclass classes, functions, lambdas,
+# module-level tables) is computed, everything else is a symbol that denotes itself by its canonical expression (locals
+# replaced by what they stand for).  A test on a symbol is decided by an oracle and the function is re-run for the other
+# outcome, so every path is enumerated with the truth value of every test it evaluated; the same test (same canonical
+# text) has one value per path.  Private helpers, record methods / properties, dispatch tables, comprehensions and loops
+# over known sequences are executed; a loop over a symbol (`for species in Species`) is executed once for a generic
+# element.  Nothing of the repository is imported: this is an interpreter over the AST with a white-list of constructs;
+# anything outside it is _Undecidable (exit 2), never a guess.
+
+class _Undecidable(Exception):
+    pass
+
+
+class _Ret(Exception):
+    def __init__(self, v):
+        self.v = v
+
+
+class _Cont(Exception):
+    pass
+
+
+class _Brk(Exception):
+    pass
+
+
+class _Raised(Exception):
+    pass
+
+
+class _Sym:
+    """a value known only by the canonical expression that denotes it; `callee` / `args` when it is the result of a
+    call (args bound to the callee's parameter names when the callee is a repository function)"""
+
+    def __init__(self, e, callee=None, args=None, fresh=False, empty=False, fname=None):
+        self.e, self.text = e, norm(e)
+        self.callee, self.args, self.fresh, self.empty, self.fname = callee, args, fresh, empty, fname
+        self.owner = None
+
+    def __repr__(self):
+        return f'<{self.text}>'
+
+
+class _Lin:
+    """a sum of symbols with numeric coefficients plus a number"""
+
+    def __init__(self, terms=(), const=0):
+        self.terms, self.const = list(terms), const
+
+    def coefs(self):
+        out = {}
+        for c, s in self.terms:
+            out[s.text] = out.get(s.text, 0) + c
+        return {k: v for k, v in out.items() if v != 0}
+
+    def sym_of(self, text):
+        return next(s for _c, s in self.terms if s.text == text)
+
+
+class _Rec:
+    """an instance of a repository record class (NamedTuple / dataclass without __init__)"""
+
+    def __init__(self, cls, fields):
+        self.cls, self.fields = cls, fields
+
+
+class _Map:
+    """a dict whose keys are known"""
+
+    def __init__(self):
+        self.k, self.v = {}, {}
+
+    def set(self, key, val):
+        kk = _pe_key(key)
+        self.k[kk], self.v[kk] = key, val
+
+    def has(self, key):
+        return _pe_key(key) in self.v
+
+    def get(self, key):
+        return self.v[_pe_key(key)]
+
+    def items(self):
+        return [(self.k[kk], self.v[kk]) for kk in self.k]
+
+
+class _Fn:
+    """a callable: repository function ('repo', fi[, recv]), lambda / nested def ('code', node, frame), repository class
+    ('cls', cls), external dotted name ('ext', name), method of a known python value ('py', recv, name)"""
+
+    def __init__(self, kind, fi=None, node=None, frame=None, recv=None, cls=None, name=None):
+        self.kind, self.fi, self.node, self.frame, self.recv, self.cls, self.name = kind, fi, node, frame, recv, cls, name
+
+
+class _PEFrame:
+    def __init__(self, module, env, parent=None):
+        self.module, self.env, self.parent = module, env, parent
+
+    def find(self, name):
+        f = self
+        while f is not None:
+            if name in f.env:
+                return f
+            f = f.parent
+        return None
+
+
+def _pe_key(v):
+    if v is None or isinstance(v, (str, int, float, bool)):
+        return ('c', type(v).__name__, v)
+    if isinstance(v, tuple):
+        return ('t',) + tuple(_pe_key(x) for x in v)
+    if isinstance(v, _Sym):
+        return ('s', v.text)
+    if isinstance(v, (_Fn, _Rec)):
+        return ('o', id(v))
+    raise _Undecidable('a key that is neither a constant nor a symbol')
+
+
+def _pe_ast(v):
+    """canonical expression of a value"""
+    if isinstance(v, _Sym):
+        return v.e
+    if isinstance(v, _Lin):
+        parts = [(c, s.e) for c, s in v.terms]
+        e = ast.Constant(v.const) if (v.const != 0 or not parts) else None
+        for c, x in parts:
+            if c in (1, -1):
+                t = x
+            else:
+                t = ast.BinOp(ast.Constant(abs(c)), ast.Mult(), x)
+            if e is None:
+                e = t if c > 0 else ast.UnaryOp(ast.USub(), t)
+            else:
+                e = ast.BinOp(e, ast.Add() if c > 0 else ast.Sub(), t)
+        return e
+    if isinstance(v, _Rec):
+        return ast.Call(ast.Name(v.cls.name, ast.Load()), [], [ast.keyword(k, _pe_ast(x)) for k, x in v.fields.items()])
+    if isinstance(v, _Map):
+        return ast.Dict([_pe_ast(k) for k, _x in v.items()], [_pe_ast(x) for _k, x in v.items()])
+    if isinstance(v, tuple):
+        return ast.Tuple([_pe_ast(x) for x in v], ast.Load())
+    if isinstance(v, list):
+        return ast.List([_pe_ast(x) for x in v], ast.Load())
+    if isinstance(v, _Fn):
+        if v.kind == 'repo':
+            return ast.Name(v.fi.name, ast.Load())
+        if v.kind == 'cls':
+            return ast.Name(v.cls.name, ast.Load())
+        if v.kind == 'ext':
+            return ast.parse(v.name, mode='eval').body
+        if v.kind == 'code' and isinstance(v.node, ast.Lambda):
+            return v.node
+        return ast.Name(getattr(v.node, 'name', v.name or 'function'), ast.Load())
+    if v is None or isinstance(v, (str, int, float, bool)):
+        return ast.Constant(v)
+    raise _Undecidable(f'no expression for {type(v).__name__}')
+
+
+_PE_BINOPS = {ast.Add: _operator.add, ast.Sub: _operator.sub, ast.Mult: _operator.mul, ast.Div: _operator.truediv,
+              ast.FloorDiv: _operator.floordiv, ast.Mod: _operator.mod, ast.Pow: _operator.pow}
+_PE_CMPOPS = {ast.Eq: _operator.eq, ast.NotEq: _operator.ne, ast.Lt: _operator.lt, ast.LtE: _operator.le,
+              ast.Gt: _operator.gt, ast.GtE: _operator.ge}
+_PE_MUTATORS = {'update', 'append', 'extend', 'insert', 'pop', 'popitem', 'clear', 'setdefault', 'fill', 'sort', 'remove',
+                'add', 'discard', 'resize', 'put', 'itemset', 'setflags', '__setitem__', '__delitem__'}
+_PE_CONST = (str, int, float, bool, type(None))
+
+
+def _pe_lin(v):
+    if isinstance(v, _Lin):
+        return v
+    if isinstance(v, _Sym):
+        return _Lin([(1, v)], 0)
+    if isinstance(v, (int, float)) and not isinstance(v, bool):
+        return _Lin([], v)
+    return None
+
+
+def _pe_binop(a, op, b):
+    num = lambda x: isinstance(x, (int, float)) and not isinstance(x, bool)
+    if type(op) in _PE_BINOPS:
+        if (num(a) and num(b)) or (isinstance(a, str) and isinstance(b, str) and isinstance(op, ast.Add)):
+            try:
+                return _PE_BINOPS[type(op)](a, b)
+            except ArithmeticError:
+                raise _Undecidable('arithmetic error in a constant expression')
+        if isinstance(op, ast.Add) and type(a) is type(b) and isinstance(a, (list, tuple)):
+            return a + b
+        la, lb = _pe_lin(a), _pe_lin(b)
+        if isinstance(op, (ast.Add, ast.Sub)) and la is not None and lb is not None:
+            sg = 1 if isinstance(op, ast.Add) else -1
+            return _Lin(la.terms + [(sg * c, s) for c, s in lb.terms], la.const + sg * lb.const)
+        if isinstance(op, ast.Mult) and la is not None and lb is not None and (num(a) or num(b)):
+            k, l_ = (a, lb) if num(a) else (b, la)
+            return _Lin([(k * c, s) for c, s in l_.terms], k * l_.const)
+    return _Sym(ast.BinOp(_pe_ast(a), op, _pe_ast(b)))
+
+
+class _Mut:
+    """one in-place change of a symbol: op '=' / '+=' … on [key], 'attr=' on .key, 'call' of mutator `key`"""
+
+    def __init__(self, obj, op, key, value, node, decided):
+        self.obj, self.op, self.key, self.value, self.node, self.decided = obj, op, key, value, node, decided
+
+
+class _Path:
+    """one run: decisions (canonical test text -> bool, in the order taken), the outcome ('return', value) /
+    ('raise', None), the in-place changes of symbols, the generic loops, local names of call results"""
+
+    def __init__(self, run, outcome):
+        self.decisions = {t: v for t, v, _f in run.taken}
+        self.order = [(t, v) for t, v, _f in run.taken]
+        self.outcome, self.muts, self.loops, self.labels, self.calls = outcome, run.muts, run.loops, run.labels, run.calls
+
+    def show(self, x):
+        s = x if isinstance(x, str) else norm(_pe_ast(x))
+        for t in sorted(self.labels, key=len, reverse=True):
+            s = s.replace(t, self.labels[t])
+        return s
+
+
+class _PE:
+    def __init__(self, prog, opaque=(), prime=False, scope='/emissions/'):
+        self.prog, self.opaque, self.prime, self.scope = prog, set(opaque), prime, scope
+
+    def explore(self, fi, limit=5000):
+        todo, out = [[]], []
+        while todo:
+            prefix = todo.pop()
+            if len(out) >= limit:
+                raise _Undecidable(f'more than {limit} paths')
+            run = _Run(self, prefix)
+            out.append(run.start(fi))
+            for i in range(len(prefix), len(run.taken)):
+                if run.taken[i][2]:
+                    todo.append([t[1] for t in run.taken[:i]] + [False])
+        return out
+
+
+class _Run:
+    def __init__(self, pe, prefix):
+        self.pe, self.prog, self.prefix = pe, pe.prog, prefix
+        self.taken, self.known = [], {}
+        self.muts, self.loops, self.labels, self.calls = [], [], {}, []
+        self.depth, self.nofork, self.consts = 0, False, {}
+
+    # ----- driver
+    def start(self, fi):
+        fr = _PEFrame(fi.module, {p: _Sym(ast.Name(p, ast.Load())) for p in fi.params})
+        try:
+            self.block(fi.node.body, fr)
+            out = ('return', None)
+        except _Ret as r:
+            out = ('return', r.v)
+        except _Raised:
+            out = ('raise', None)
+        except (_Cont, _Brk):
+            raise _Undecidable('continue / break outside a loop')
+        except RecursionError:
+            raise _Undecidable('recursion too deep')
+        return _Path(self, out)
+
+    # ----- decisions
+    def truth(self, v):
+        if isinstance(v, _Lin):
+            if not v.terms:
+                return bool(v.const)
+            v = _Sym(_pe_ast(v))
+        if isinstance(v, _Map):
+            return bool(v.v)
+        if isinstance(v, (_Rec, _Fn)):
+            return True
+        if not isinstance(v, _Sym):
+            return bool(v)
+        e, pol = v.e, True
+        while True:
+            if isinstance(e, ast.UnaryOp) and isinstance(e.op, ast.Not):
+                e, pol = e.operand, not pol
+            elif isinstance(e, ast.Compare) and len(e.ops) == 1 and isinstance(e.ops[0], (ast.NotIn, ast.IsNot, ast.NotEq)):
+                op = {ast.NotIn: ast.In, ast.IsNot: ast.Is, ast.NotEq: ast.Eq}[type(e.ops[0])]()
+                e, pol = ast.Compare(e.left, [op], e.comparators), not pol
+            elif isinstance(e, ast.Call) and call_name(e) == 'bool' and len(e.args) == 1 and not e.keywords:
+                e = e.args[0]
+            else:
+                break
+        text = norm(e)
+        if text not in self.known:
+            i = len(self.taken)
+            val = self.prefix[i] if i < len(self.prefix) else True
+            self.taken.append((text, val, not self.nofork))
+            self.known[text] = val
+        return self.known[text] == pol
+
+    # ----- names
+    def name(self, n, fr):
+        f = fr.find(n)
+        if f is not None:
+            return f.env[n]
+        return self.global_name(n, fr.module)
+
+    def global_name(self, n, module):
+        r = self.prog.resolve_name(module, n) if module is not None else None
+        if r is None:
+            return _Fn('ext', name=n)
+        if hasattr(r, 'qualname'):
+            return _Fn('repo', fi=r)
+        if hasattr(r, 'methods'):
+            return _Fn('cls', cls=r)
+        if isinstance(r, tuple) and r[0] == 'const':
+            key = (r[1].relpath, r[2])
+            if key not in self.consts:
+                self.consts[key] = _Sym(ast.Name(n, ast.Load()))          # cycles
+                saved = (len(self.taken), dict(self.known), len(self.muts), len(self.calls))
+                try:
+                    v = self.eval(r[1].constants[r[2]], _PEFrame(r[1], {}))
+                    if isinstance(v, (_Sym, _Lin)):
+                        v = _Sym(ast.Name(n, ast.Load()))
+                except _Undecidable:
+                    del self.taken[saved[0]:], self.muts[saved[2]:], self.calls[saved[3]:]
+                    self.known = saved[1]
+                    v = _Sym(ast.Name(n, ast.Load()))
+                self.consts[key] = v
+            return self.consts[key]
+        return _Sym(ast.Name(n, ast.Load()))
+
+    # ----- expressions
+    def subst(self, e, fr):
+        """e with the locals it reads replaced by what they stand for (names bound inside e left alone)"""
+        inner = {x.id for x in ast.walk(e) if isinstance(x, ast.Name) and isinstance(x.ctx, ast.Store)}
+        inner |= {a.arg for x in ast.walk(e) if isinstance(x, ast.Lambda) for a in x.args.args + x.args.kwonlyargs + x.args.posonlyargs}
+        class T(ast.NodeTransformer):
+            def visit_Name(self, n):
+                if n.id in inner or fr.find(n.id) is None:
+                    return n
+                return _pe_ast(fr.find(n.id).env[n.id])
+        return T().visit(_copy.deepcopy(e))
+
+    def eval(self, e, fr):
+        m = getattr(self, 'e_' + type(e).__name__, None)
+        if m is None:
+            return _Sym(self.subst(e, fr))
+        return m(e, fr)
+
+    def e_Constant(self, e, fr):
+        return e.value
+
+    def e_Name(self, e, fr):
+        return self.name(e.id, fr)
+
+    def e_Attribute(self, e, fr):
+        return self.getattr(self.eval(e.value, fr), e.attr)
+
+    def e_Tuple(self, e, fr):
+        return tuple(self.elts(e.elts, fr))
+
+    def e_List(self, e, fr):
+        return self.elts(e.elts, fr)
+
+    def e_Set(self, e, fr):
+        return tuple(self.elts(e.elts, fr))
+
+    def elts(self, es, fr):
+        out = []
+        for x in es:
+            if isinstance(x, ast.Starred):
+                out += self.sequence(self.eval(x.value, fr))
+            else:
+                out.append(self.eval(x, fr))
+        return out
+
+    def e_Dict(self, e, fr):
+        m = _Map()
+        for k, v in zip(e.keys, e.values):
+            if k is None:
+                src = self.eval(v, fr)
+                if not isinstance(src, _Map):
+                    raise _Undecidable('** of an unknown mapping')
+                for kk, vv in src.items():
+                    m.set(kk, vv)
+            else:
+                m.set(self.eval(k, fr), self.eval(v, fr))
+        return m
+
+    def e_Lambda(self, e, fr):
+        return _Fn('code', node=e, frame=fr)
+
+    def e_IfExp(self, e, fr):
+        return self.eval(e.body if self.truth(self.eval(e.test, fr)) else e.orelse, fr)
+
+    def e_NamedExpr(self, e, fr):
+        v = self.eval(e.value, fr)
+        self.bind(e.target, v, fr, e)
+        return v
+
+    def e_BoolOp(self, e, fr):
+        v = None
+        for x in e.values:
+            v = self.eval(x, fr)
+            t = self.truth(v)
+            if t != isinstance(e.op, ast.And):
+                return v
+        return v
+
+    def e_UnaryOp(self, e, fr):
+        v = self.eval(e.operand, fr)
+        if isinstance(e.op, ast.Not):
+            if isinstance(v, _Sym):
+                return _Sym(ast.UnaryOp(ast.Not(), v.e))
+            return not self.truth(v)
+        if isinstance(v, (int, float)) and not isinstance(v, bool):
+            return -v if isinstance(e.op, ast.USub) else +v if isinstance(e.op, ast.UAdd) else ~v
+        if isinstance(e.op, ast.USub) and isinstance(v, (_Sym, _Lin)):
+            lin = _pe_lin(v)
+            return _Lin([(-c, s) for c, s in lin.terms], -lin.const)
+        return _Sym(ast.UnaryOp(e.op, _pe_ast(v)))
+
+    def binop(self, a, op, b):
+        return _pe_binop(a, op, b)
+
+    def e_BinOp(self, e, fr):
+        return self.binop(self.eval(e.left, fr), e.op, self.eval(e.right, fr))
+
+    def e_Compare(self, e, fr):
+        left = self.eval(e.left, fr)
+        for op, c in zip(e.ops, e.comparators):
+            right = self.eval(c, fr)
+            r = self.compare(left, op, right)
+            if len(e.ops) == 1:
+                return r
+            if not self.truth(r):
+                return False
+            left = right
+        return True
+
+    def compare(self, a, op, b):
+        ca, cb = isinstance(a, _PE_CONST), isinstance(b, _PE_CONST)
+        if isinstance(op, (ast.Is, ast.IsNot)):
+            pos = isinstance(op, ast.Is)
+            if a is None or b is None:
+                other = b if a is None else a
+                if other is None:
+                    return pos
+                if not isinstance(other, (_Sym, _Lin)) or getattr(other, 'notnone', False):
+                    return not pos
+            elif not isinstance(a, (_Sym, _Lin)) and not isinstance(b, (_Sym, _Lin)):
+                return (a is b) == pos if not (ca and cb) else (a == b and type(a) is type(b)) == pos
+        elif isinstance(op, (ast.In, ast.NotIn)):
+            pos = isinstance(op, ast.In)
+            if isinstance(b, _Sym) and isinstance(b.e, ast.Call) and isinstance(b.e.func, ast.Attribute) and b.e.func.attr == 'keys' \
+                    and not b.e.args and not b.e.keywords:
+                b = _Sym(b.e.func.value)
+            if isinstance(b, _Map):
+                return b.has(a) == pos
+            if isinstance(b, str) and isinstance(a, str):
+                return (a in b) == pos
+            if isinstance(b, (list, tuple)):
+                ks = [_pe_key(x) for x in b]
+                if _pe_key(a) in ks:
+                    return pos
+                if not isinstance(a, _Sym) and not any(isinstance(x, _Sym) for x in b):
+                    return not pos
+        elif type(op) in _PE_CMPOPS:
+            if ca and cb:
+                try:
+                    return _PE_CMPOPS[type(op)](a, b)
+                except TypeError:
+                    raise _Undecidable('comparison of unlike constants')
+            if isinstance(op, (ast.Eq, ast.NotEq)) and isinstance(a, _Sym) and isinstance(b, _Sym) and a.text == b.text:
+                return isinstance(op, ast.Eq)
+        return _Sym(ast.Compare(_pe_ast(a), [op], [_pe_ast(b)]))
+
+    def e_Subscript(self, e, fr):
+        base = self.eval(e.value, fr)
+        if isinstance(base, _Fn) and base.kind in ('cls', 'ext'):
+            return base                                                   # a generic alias: SpeciesValues[float]
+        return self.index(base, self.eval(e.slice, fr))
+
+    def e_Slice(self, e, fr):
+        parts = [None if x is None else self.eval(x, fr) for x in (e.lower, e.upper, e.step)]
+        if all(x is None or (isinstance(x, int) and not isinstance(x, bool)) for x in parts):
+            return slice(*parts)
+        return _Sym(ast.Slice(*[None if x is None else _pe_ast(x) for x in parts]))
+
+    def index(self, base, key):
+        if isinstance(base, (list, tuple, str)) and (isinstance(key, slice) or (isinstance(key, int) and not isinstance(key, bool))):
+            try:
+                return base[key]
+            except IndexError:
+                raise _Undecidable('index out of range in a known sequence')
+        if isinstance(base, _Map):
+            if base.has(key):
+                return base.get(key)
+            raise _Undecidable(f'key `{norm(_pe_ast(key))}` is not in a known mapping')
+        if isinstance(base, _Rec) and isinstance(key, int) and not isinstance(key, bool):
+            return list(base.fields.values())[key]
+        if isinstance(base, (_Sym, _Lin)):
+            k = None if isinstance(key, slice) else _pe_ast(key)
+            if isinstance(key, slice):
+                k = ast.Slice(*[None if x is None else ast.Constant(x) for x in (key.start, key.stop, key.step)])
+            return _Sym(ast.Subscript(_pe_ast(base), k, ast.Load()))
+        raise _Undecidable('subscript of a value that is neither a known container nor a symbol')
+
+    @staticmethod
+    def iterable(v):
+        """an enum class (or any other class / external name) that is iterated is a symbol"""
+        return _Sym(_pe_ast(v)) if isinstance(v, _Fn) and v.kind in ('cls', 'ext') else v
+
+    def sequence(self, v):
+        """the elements of a known sequence"""
+        if isinstance(v, (list, tuple)):
+            return list(v)
+        if isinstance(v, _Map):
+            return [k for k, _x in v.items()]
+        if isinstance(v, _Rec) and 'NamedTuple' in ' '.join(v.cls.base_exprs):
+            return list(v.fields.values())
+        raise _Undecidable('iteration over something that is not a known sequence')
+
+    def comp(self, gens, fr, emit, first):
+        def go(i, f):
+            if i == len(gens):
+                emit(f)
+                return
+            g = gens[i]
+            for item in self.sequence(first if i == 0 else self.eval(g.iter, f)):
+                f2 = _PEFrame(f.module, {}, f)
+                self.bind(g.target, item, f2, g)
+                if all(self.truth(self.eval(c, f2)) for c in g.ifs):
+                    go(i + 1, f2)
+        go(0, fr)
+
+    def e_ListComp(self, e, fr):
+        first = self.iterable(self.eval(e.generators[0].iter, fr))
+        if isinstance(first, (_Sym, _Lin)):
+            return _Sym(self.subst(e, fr))
+        out = []
+        self.comp(e.generators, fr, lambda f: out.append(self.eval(e.elt, f)), first)
+        return out
+
+    e_GeneratorExp = e_ListComp
+
+    def e_SetComp(self, e, fr):
+        return tuple(self.e_ListComp(e, fr))
+
+    def e_DictComp(self, e, fr):
+        first = self.iterable(self.eval(e.generators[0].iter, fr))
+        if not isinstance(first, (_Sym, _Lin)):
+            m = _Map()
+            self.comp(e.generators, fr, lambda f: m.set(self.eval(e.key, f), self.eval(e.value, f)), first)
+            return m
+        if len(e.generators) != 1:
+            return _Sym(self.subst(e, fr))
+        # a map built over a generic element: a fresh map and one generic iteration that stores into it
+        g = e.generators[0]
+        m = _Sym(ast.Dict([], []), fresh=True, empty=True)
+        f2 = _PEFrame(fr.module, {}, fr)
+        self.generic_bind(g.target, first, f2, e)
+        if all(self.truth(self.eval(c, f2)) for c in g.ifs):
+            self.muts.append(_Mut(m, '=', self.eval(e.key, f2), self.eval(e.value, f2), e, dict(self.known)))
+        return m
+
+    def e_JoinedStr(self, e, fr):
+        out = []
+        for v in e.values:
+            if isinstance(v, ast.Constant) and isinstance(v.value, str):
+                out.append(v.value)
+                continue
+            x = self.eval(v.value, fr) if isinstance(v, ast.FormattedValue) and v.conversion == -1 and v.format_spec is None else None
+            if not isinstance(x, (str, int)) or isinstance(x, bool):
+                return _Sym(self.subst(e, fr))
+            out.append(str(x))
+        return ''.join(out)
+
+    def e_Starred(self, e, fr):
+        raise _Undecidable('* outside a call or display')
+
+    # ----- attributes
+    def getattr(self, v, attr, default=_Undecidable):
+        if isinstance(v, _Rec):
+            if attr in v.fields:
+                return v.fields[attr]
+            if attr in ('_replace', '_asdict'):
+                return _Fn('py', recv=v, name=attr)
+            meth = v.cls.find_method(attr)
+            if meth is not None:
+                if any(d.split('.')[-1] in ('property', 'cached_property') for d in meth.decorators()):
+                    return self.enter(meth.node, meth.module, [v], {}, None)
+                return _Fn('repo', fi=meth, recv=v)
+            ca = {}
+            for c in reversed(v.cls.mro()):
+                ca.update(c.class_assignments())
+            if attr in ca and ca[attr] is not None:
+                return self.eval(ca[attr], _PEFrame(v.cls.module, {}))
+            if default is not _Undecidable:
+                return default
+            raise _Undecidable(f'record {v.cls.name} has no attribute {attr}')
+        if isinstance(v, (_Sym, _Lin)):
+            return _Sym(ast.Attribute(_pe_ast(v), attr, ast.Load()))
+        if isinstance(v, _Fn):
+            if v.kind == 'ext':
+                return _Fn('ext', name=f'{v.name}.{attr}')
+            if v.kind == 'cls':
+                meth = v.cls.find_method(attr)
+                if meth is not None:
+                    return _Fn('repo', fi=meth)
+                return _Sym(ast.Attribute(ast.Name(v.cls.name, ast.Load()), attr, ast.Load()))
+            return _Sym(ast.Attribute(_pe_ast(v), attr, ast.Load()))
+        if isinstance(v, (list, tuple, str, _Map)):
+            return _Fn('py', recv=v, name=attr)
+        raise _Undecidable(f'attribute {attr} of a constant')
+
+    # ----- calls
+    def e_Call(self, e, fr):
+        f = e.func
+        pos = self.elts(e.args, fr)
+        kw = {}
+        for k in e.keywords:
+            if k.arg is None:
+                src = self.eval(k.value, fr)
+                if not isinstance(src, _Map) or not all(isinstance(kk, str) for kk, _v in src.items()):
+                    raise _Undecidable('** of an unknown mapping')
+                kw.update(dict(src.items()))
+            else:
+                kw[k.arg] = self.eval(k.value, fr)
+        if isinstance(f, ast.Attribute):
+            recv = self.eval(f.value, fr)
+            if isinstance(recv, (_Sym, _Lin)):
+                return self.sym_method(recv if isinstance(recv, _Sym) else _Sym(_pe_ast(recv)), f.attr, pos, kw, e)
+            fv = self.getattr(recv, f.attr)
+        else:
+            fv = self.eval(f, fr)
+        return self.apply(fv, pos, kw, e)
+
+    def sym_method(self, recv, attr, pos, kw, node):
+        if attr == 'get' and 1 <= len(pos) <= 2 and not kw:
+            if self.truth(_Sym(ast.Compare(_pe_ast(pos[0]), [ast.In()], [recv.e]))):
+                got = _Sym(ast.Subscript(recv.e, _pe_ast(pos[0]), ast.Load()))
+                got.notnone = len(pos) == 1           # `m.get(k) is not None` is how the membership test is spelt
+                return got
+            return pos[1] if len(pos) == 2 else None
+        call = ast.Call(ast.Attribute(recv.e, attr, ast.Load()), [_pe_ast(a) for a in pos], [ast.keyword(k, _pe_ast(v)) for k, v in kw.items()])
+        if attr in _PE_MUTATORS:
+            self.muts.append(_Mut(recv, 'call', attr, (pos, kw), node, dict(self.known)))
+            return _Sym(call)
+        if attr in ('copy', 'deepcopy', 'astype'):
+            return _Sym(call, fresh=True)
+        return _Sym(call)
+
+    def opaque(self, fv, pos, kw, node, fi=None):
+        bound = None
+        if fi is not None:
+            bound, names = {}, [p.arg for p in fi.node.args.posonlyargs + fi.node.args.args]
+            if fi.cls is not None and names and names[0] in ('self', 'cls') and not any(
+                    d.split('.')[-1] == 'staticmethod' for d in fi.decorators()):
+                names = names[1:]
+            for i, a in enumerate(pos):
+                if i < len(names):
+                    bound[names[i]] = a
+            bound.update(kw)
+        e = ast.Call(_pe_ast(fv), [_pe_ast(a) for a in pos], [ast.keyword(k, _pe_ast(v)) for k, v in kw.items()])
+        s = _Sym(e, callee=fi, args=bound if bound is not None else {'*': list(pos), **kw}, fresh=True,
+                 empty=(not pos and not kw and isinstance(fv, _Fn) and (fv.kind == 'cls' or fv.name in ('dict', 'list', 'set'))),
+                 fname=norm(_pe_ast(fv)))
+        s.node = node
+        self.calls.append(s)
+        return s
+
+    def apply(self, fv, pos, kw, node):
+        if isinstance(fv, _Sym):
+            return self.opaque(fv, pos, kw, node)
+        if not isinstance(fv, _Fn):
+            raise _Undecidable('call of a value that is not callable')
+        if fv.kind == 'repo':
+            fi = fv.fi
+            enter = fi.name not in self.pe.opaque and self.pe.scope in fi.module.relpath and self.depth < 8 \
+                and (fi.cls is None or fv.recv is not None) \
+                and not any(d.split('(')[0].split('.')[-1] in ('cache', 'lru_cache', 'cached_property') for d in fi.decorators())
+            if enter:
+                saved = (len(self.taken), dict(self.known), len(self.muts), len(self.calls), len(self.loops))
+                try:
+                    return self.enter(fi.node, fi.module, ([fv.recv] if fv.recv is not None else []) + list(pos), kw, None)
+                except _Undecidable:
+                    if fv.recv is not None:
+                        raise
+                    del self.taken[saved[0]:], self.muts[saved[2]:], self.calls[saved[3]:], self.loops[saved[4]:]
+                    self.known = saved[1]
+            if fv.recv is not None:
+                raise _Undecidable(f'method {fi.qualname} of a record cannot be followed')
+            return self.opaque(fv, pos, kw, node, fi)
+        if fv.kind == 'code':
+            return self.enter(fv.node, fv.frame.module, pos, kw, fv.frame)
+        if fv.kind == 'cls':
+            return self.construct(fv, pos, kw, node)
+        if fv.kind == 'py':
+            return self.py_method(fv.recv, fv.name, pos, kw)
+        return self.builtin(fv, pos, kw, node)
+
+    def enter(self, node, module, pos, kw, closure):
+        a = node.args
+        names = [p.arg for p in a.posonlyargs + a.args]
+        if len(pos) > len(names) and not a.vararg:
+            raise _Undecidable('too many positional arguments')
+        env = dict(zip(names, pos))
+        if a.vararg:
+            env[a.vararg.arg] = tuple(pos[len(names):])
+        extra = _Map()
+        for k, v in kw.items():
+            if k in env:
+                raise _Undecidable(f'argument {k} given twice')
+            if k not in names + [p.arg for p in a.kwonlyargs]:
+                if not a.kwarg:
+                    raise _Undecidable(f'unexpected keyword {k}')
+                extra.set(k, v)
+            else:
+                env[k] = v
+        if a.kwarg:
+            env[a.kwarg.arg] = extra
+        dfr = _PEFrame(module, {}, closure)
+        for p, d in zip(names[len(names) - len(a.defaults):], a.defaults):
+            if p not in env:
+                env[p] = self.eval(d, dfr)
+        for p, d in zip(a.kwonlyargs, a.kw_defaults):
+            if p.arg not in env and d is not None:
+                env[p.arg] = self.eval(d, dfr)
+        missing = [p for p in names + [p.arg for p in a.kwonlyargs] if p not in env]
+        if missing:
+            raise _Undecidable(f'argument {missing[0]} not bound')
+        fr = _PEFrame(module, env, closure)
+        self.depth += 1
+        try:
+            if isinstance(node, ast.Lambda):
+                return self.eval(node.body, fr)
+            try:
+                self.block(node.body, fr)
+            except _Ret as r:
+                return r.v
+            except (_Cont, _Brk):
+                raise _Undecidable('continue / break outside a loop')
+            return None
+        finally:
+            self.depth -= 1
+
+    @staticmethod
+    def record_class(ci):
+        if any(c.find_method(x) for c in [ci] for x in ('__init__', '__new__', '__post_init__')):
+            return False
+        deco = ' '.join(ast.unparse(d) for d in ci.node.decorator_list)
+        return 'dataclass' in deco or any('NamedTuple' in b for c in ci.mro() for b in c.base_exprs)
+
+    def construct(self, fv, pos, kw, node):
+        ci = fv.cls
+        if not self.record_class(ci):
+            return self.opaque(fv, pos, kw, node)
+        order, defaults = [], {}
+        for c in reversed(ci.mro()):
+            for s in c.node.body:
+                if isinstance(s, ast.AnnAssign) and isinstance(s.target, ast.Name) and 'ClassVar' not in ast.unparse(s.annotation):
+                    if s.target.id not in order:
+                        order.append(s.target.id)
+                    if s.value is not None:
+                        defaults[s.target.id] = (s.value, c.module)
+        if len(pos) > len(order):
+            raise _Undecidable('too many arguments for a record')
+        fields = dict(zip(order, pos))
+        for k, v in kw.items():
+            if k not in order or k in fields:
+                raise _Undecidable(f'unexpected field {k}')
+            fields[k] = v
+        for k in order:
+            if k in fields:
+                continue
+            if k not in defaults:
+                raise _Undecidable(f'field {k} of {ci.name} not given')
+            d, mod = defaults[k]
+            fr = _PEFrame(mod, {})
+            if isinstance(d, ast.Call) and call_name(d).split('.')[-1] == 'field':
+                fac, dv = kwarg(d, 'default_factory'), kwarg(d, 'default')
+                if fac is not None:
+                    fields[k] = self.apply(self.eval(fac, fr), [], {}, d)
+                elif dv is not None:
+                    fields[k] = self.eval(dv, fr)
+                else:
+                    raise _Undecidable(f'field {k} of {ci.name} not given')
+            else:
+                fields[k] = self.eval(d, fr)
+        rec = _Rec(ci, {k: fields[k] for k in order})
+        for k, v in rec.fields.items():
+            if isinstance(v, _Sym) and v.owner is None:
+                v.owner = (rec, k)
+        rec.node = node
+        return rec
+
+    def py_method(self, recv, name, pos, kw):
+        if isinstance(recv, _Rec):
+            if name == '_replace' and not pos and all(k in recv.fields for k in kw):
+                return _Rec(recv.cls, {**recv.fields, **kw})
+            if name == '_asdict' and not pos and not kw:
+                m = _Map()
+                for k, v in recv.fields.items():
+                    m.set(k, v)
+                return m
+            raise _Undecidable(f'method {name} of a record')
+        if kw:
+            raise _Undecidable('keyword call of a builtin method')
+        if isinstance(recv, list):
+            if name == 'append' and len(pos) == 1:
+                recv.append(pos[0])
+                return None
+            if name == 'extend' and len(pos) == 1:
+                recv.extend(self.sequence(pos[0]))
+                return None
+            if name == 'insert' and len(pos) == 2 and isinstance(pos[0], int):
+                recv.insert(pos[0], pos[1])
+                return None
+            if name == 'pop' and len(pos) <= 1 and recv:
+                return recv.pop(*pos)
+            if name == 'copy' and not pos:
+                return list(recv)
+        if isinstance(recv, _Map):
+            if name == 'get' and 1 <= len(pos) <= 2:
+                return recv.get(pos[0]) if recv.has(pos[0]) else (pos[1] if len(pos) == 2 else None)
+            if name == 'items' and not pos:
+                return [(k, v) for k, v in recv.items()]
+            if name == 'keys' and not pos:
+                return [k for k, _v in recv.items()]
+            if name == 'values' and not pos:
+                return [v for _k, v in recv.items()]
+            if name == 'copy' and not pos:
+                m = _Map()
+                for k, v in recv.items():
+                    m.set(k, v)
+                return m
+            if name == 'update' and len(pos) == 1 and isinstance(pos[0], _Map):
+                for k, v in pos[0].items():
+                    recv.set(k, v)
+                return None
+            if name == 'setdefault' and len(pos) == 2:
+                if not recv.has(pos[0]):
+                    recv.set(pos[0], pos[1])
+                return recv.get(pos[0])
+        if isinstance(recv, str) and all(isinstance(a, _PE_CONST) for a in pos) and name in (
+                'lower', 'upper', 'strip', 'lstrip', 'rstrip', 'startswith', 'endswith', 'format', 'replace', 'removeprefix',
+                'removesuffix', 'split', 'join', 'title', 'capitalize'):
+            r = getattr(recv, name)(*pos)
+            return tuple(r) if isinstance(r, list) else r
+        if isinstance(recv, tuple) and name in ('index', 'count') and len(pos) == 1:
+            ks = [_pe_key(x) for x in recv]
+            return ks.index(_pe_key(pos[0])) if name == 'index' and _pe_key(pos[0]) in ks else ks.count(_pe_key(pos[0]))
+        raise _Undecidable(f'method {name} of a known {type(recv).__name__}')
+
+    def builtin(self, fv, pos, kw, node):
+        n = fv.name
+        num = lambda x: isinstance(x, (int, float)) and not isinstance(x, bool)
+        if n in ('float', 'int') and len(pos) == 1 and not kw:
+            if isinstance(pos[0], (int, float, str)):
+                try:
+                    return float(pos[0]) if n == 'float' else int(pos[0])
+                except ValueError:
+                    raise _Undecidable('conversion of a constant fails')
+            if n == 'float' and isinstance(pos[0], (_Sym, _Lin)):
+                return pos[0]                                             # float() of a number is that number
+        if n == 'bool' and len(pos) == 1 and not kw:
+            return self.truth(pos[0])
+        if n == 'len' and len(pos) == 1 and isinstance(pos[0], (list, tuple, str, _Map)):
+            return len(pos[0].v) if isinstance(pos[0], _Map) else len(pos[0])
+        if n in ('sum', 'math.fsum', 'fsum') and 1 <= len(pos) <= 2 and isinstance(pos[0], (list, tuple)):
+            acc = pos[1] if len(pos) == 2 else kw.get('start', 0)
+            for x in pos[0]:
+                acc = self.binop(acc, ast.Add(), x)
+            return acc
+        if n == 'getattr' and 2 <= len(pos) <= 3 and isinstance(pos[1], str) and not kw:
+            return self.getattr(pos[0], pos[1], *pos[2:])
+        if n in ('replace', 'dataclasses.replace') and len(pos) == 1 and isinstance(pos[0], _Rec) and all(k in pos[0].fields for k in kw):
+            return _Rec(pos[0].cls, {**pos[0].fields, **kw})
+        if n == 'hasattr' and len(pos) == 2 and isinstance(pos[1], str) and isinstance(pos[0], _Rec):
+            return self.getattr(pos[0], pos[1], None) is not None
+        if n in ('list', 'tuple', 'set', 'frozenset') and len(pos) <= 1 and not kw:
+            if not pos:
+                return [] if n == 'list' else ()
+            if not isinstance(pos[0], (_Sym, _Lin)):
+                seq = self.sequence(pos[0])
+                return seq if n == 'list' else tuple(seq)
+        if n == 'dict' and len(pos) <= 1:
+            m = _Map()
+            if pos:
+                if isinstance(pos[0], (_Sym, _Lin)):
+                    return self.opaque(fv, pos, kw, node)
+                for it in (pos[0].items() if isinstance(pos[0], _Map) else self.sequence(pos[0])):
+                    k, v = self.sequence(it) if not isinstance(it, tuple) else it
+                    m.set(k, v)
+            for k, v in kw.items():
+                m.set(k, v)
+            return m
+        if n == 'zip' and not kw and pos and all(not isinstance(a, (_Sym, _Lin)) for a in pos):
+            return [tuple(t) for t in zip(*[self.sequence(a) for a in pos])]
+        if n == 'enumerate' and 1 <= len(pos) <= 2 and not isinstance(pos[0], (_Sym, _Lin)):
+            start = pos[1] if len(pos) == 2 else kw.get('start', 0)
+            return [(i, x) for i, x in enumerate(self.sequence(pos[0]), start)]
+        if n == 'reversed' and len(pos) == 1 and not isinstance(pos[0], (_Sym, _Lin)):
+            return list(reversed(self.sequence(pos[0])))
+        if n == 'range' and pos and all(isinstance(a, int) and not isinstance(a, bool) for a in pos) and not kw:
+            r = range(*pos)
+            if len(r) > 64:
+                raise _Undecidable('a long range')
+            return list(r)
+        if n in ('abs', 'min', 'max', 'round') and pos and all(num(a) for a in pos) and not kw:
+            return {'abs': abs, 'min': min, 'max': max, 'round': round}[n](*pos)
+        if n in ('isinstance', 'issubclass', 'type', 'id', 'iter', 'next', 'setattr', 'delattr', 'exec', 'eval', 'vars', 'globals', 'locals'):
+            raise _Undecidable(f'{n}() is not followed')
+        if n == 'print':
+            return None
+        return self.opaque(fv, pos, kw, node)
+
+    # ----- statements
+    def block(self, stmts, fr):
+        for s in stmts:
+            m = getattr(self, 's_' + type(s).__name__, None)
+            if m is None:
+                raise _Undecidable(f'statement {type(s).__name__} (line {getattr(s, "lineno", 0)}) is not followed')
+            m(s, fr)
+
+    def s_Pass(self, s, fr):
+        pass
+
+    s_Import = s_ImportFrom = s_Assert = s_Pass
+
+    def s_Expr(self, s, fr):
+        if isinstance(s.value, ast.Constant):
+            return
+        self.eval(s.value, fr)
+
+    def s_Return(self, s, fr):
+        raise _Ret(self.eval(s.value, fr) if s.value is not None else None)
+
+    def s_Raise(self, s, fr):
+        raise _Raised()
+
+    def s_Continue(self, s, fr):
+        raise _Cont()
+
+    def s_Break(self, s, fr):
+        raise _Brk()
+
+    def s_FunctionDef(self, s, fr):
+        fr.env[s.name] = _Fn('code', node=s, frame=fr, name=s.name)
+
+    def s_If(self, s, fr):
+        self.block(s.body if self.truth(self.eval(s.test, fr)) else s.orelse, fr)
+
+    def s_Match(self, s, fr):
+        subj = self.eval(s.subject, fr)
+        for c in s.cases:
+            if self.pattern(c.pattern, subj, fr) and (c.guard is None or self.truth(self.eval(c.guard, fr))):
+                self.block(c.body, fr)
+                return
+
+    def pattern(self, p, subj, fr):
+        if isinstance(p, ast.MatchAs) and p.pattern is None:
+            if p.name:
+                fr.env[p.name] = subj
+            return True
+        if isinstance(p, ast.MatchOr):
+            return any(self.pattern(q, subj, fr) for q in p.patterns)
+        if isinstance(p, ast.MatchValue):
+            return self.truth(self.compare(subj, ast.Eq(), self.eval(p.value, fr)))
+        if isinstance(p, ast.MatchSingleton):
+            return self.truth(self.compare(subj, ast.Is(), p.value))
+        raise _Undecidable('a structural pattern')
+
+    def s_Assign(self, s, fr):
+        v = self.eval(s.value, fr)
+        for t in s.targets:
+            self.bind(t, v, fr, s)
+
+    def s_AnnAssign(self, s, fr):
+        if s.value is not None:
+            self.bind(s.target, self.eval(s.value, fr), fr, s)
+
+    def bind(self, t, v, fr, node):
+        if isinstance(t, ast.Name):
+            if isinstance(v, _Sym) and v.fresh and v.text not in self.labels and v.fname is not None and len(v.text) > len(t.id):
+                self.labels[v.text] = t.id
+            fr.env[t.id] = v
+        elif isinstance(t, (ast.Tuple, ast.List)):
+            if any(isinstance(x, ast.Starred) for x in t.elts):
+                raise _Undecidable('starred unpacking')
+            if isinstance(v, (_Sym, _Lin)):
+                items = [_Sym(ast.Subscript(_pe_ast(v), ast.Constant(i), ast.Load())) for i in range(len(t.elts))]
+            else:
+                items = self.sequence(v)
+            if len(items) != len(t.elts):
+                raise _Undecidable('unpacking of a sequence of another length')
+            for x, i in zip(t.elts, items):
+                self.bind(x, i, fr, node)
+        elif isinstance(t, ast.Attribute):
+            obj = self.eval(t.value, fr)
+            if isinstance(obj, _Rec):
+                obj.fields[t.attr] = v
+            elif isinstance(obj, _Sym):
+                self.muts.append(_Mut(obj, 'attr=', t.attr, v, node, dict(self.known)))
+            else:
+                raise _Undecidable('attribute store on a value that is neither a record nor a symbol')
+        elif isinstance(t, ast.Subscript):
+            obj, key = self.eval(t.value, fr), self.eval(t.slice, fr)
+            self.store(obj, key, '=', v, node)
+        else:
+            raise _Undecidable('assignment target')
+
+    def store(self, obj, key, op, v, node):
+        if isinstance(obj, _Map):
+            obj.set(key, v)
+        elif isinstance(obj, list) and isinstance(key, int) and not isinstance(key, bool) and -len(obj) <= key < len(obj):
+            obj[key] = v
+        elif isinstance(obj, _Sym):
+            self.muts.append(_Mut(obj, op, key, v, node, dict(self.known)))
+        else:
+            raise _Undecidable('element store into a value that is neither a known container nor a symbol')
+
+    def s_AugAssign(self, s, fr):
+        v = self.eval(s.value, fr)
+        t = s.target
+        if isinstance(t, ast.Name):
+            cur = self.name(t.id, fr)
+            if isinstance(cur, list) and isinstance(s.op, ast.Add):
+                cur.extend(self.sequence(v))
+                return
+            (fr.find(t.id) or fr).env[t.id] = self.binop(cur, s.op, v)
+        elif isinstance(t, ast.Attribute):
+            obj = self.eval(t.value, fr)
+            if isinstance(obj, _Rec) and t.attr in obj.fields:
+                obj.fields[t.attr] = self.binop(obj.fields[t.attr], s.op, v)
+            elif isinstance(obj, _Sym):
+                self.muts.append(_Mut(obj, 'attr' + type(s.op).__name__, t.attr, v, s, dict(self.known)))
+            else:
+                raise _Undecidable('augmented attribute store')
+        elif isinstance(t, ast.Subscript):
+            obj, key = self.eval(t.value, fr), self.eval(t.slice, fr)
+            if isinstance(obj, (_Map, list)):
+                self.store(obj, key, '=', self.binop(self.index(obj, key), s.op, v), s)
+            else:
+                self.store(obj, key, {ast.Add: '+=', ast.Sub: '-='}.get(type(s.op), type(s.op).__name__ + '='), v, s)
+        else:
+            raise _Undecidable('augmented assignment target')
+
+    def generic_bind(self, target, it, fr, node, prime=False):
+        """bind the target of a loop over the symbol `it` to a generic element; records the loop"""
+        if not isinstance(it, _Sym):
+            raise _Undecidable('iteration over a symbolic sum')
+        how, base = 'elements', it
+        if isinstance(it.e, ast.Call) and isinstance(it.e.func, ast.Attribute) and not it.e.args and not it.e.keywords \
+                and it.e.func.attr in ('items', 'keys', 'values'):
+            how, base = it.e.func.attr, _Sym(it.e.func.value)
+        elif isinstance(it.e, ast.Call) and call_name(it.e) in ('list', 'tuple', 'iter') and len(it.e.args) == 1 and not it.e.keywords:
+            base = _Sym(it.e.args[0])
+        pre = 'other_' if prime else ''
+        if how == 'items' and isinstance(target, (ast.Tuple, ast.List)) and len(target.elts) == 2 and isinstance(target.elts[0], ast.Name):
+            key = _Sym(ast.Name(pre + target.elts[0].id, ast.Load()))
+            fr.env[target.elts[0].id] = key
+            self.bind(target.elts[1], _Sym(ast.Subscript(base.e, key.e, ast.Load())), fr, node)
+        elif how in ('elements', 'keys') and isinstance(target, ast.Name):
+            key = _Sym(ast.Name(pre + target.id, ast.Load()))
+            fr.env[target.id] = key
+        else:
+            raise _Undecidable('the target of a loop over a symbol')
+        self.loops.append({'over': base.text, 'how': how, 'key': key.text, 'node': node, 'prime': prime})
+        return key
+
+    def s_For(self, s, fr):
+        it = self.iterable(self.eval(s.iter, fr))
+        if isinstance(it, (_Sym, _Lin)):
+            if s.orelse:
+                raise _Undecidable('for/else over a symbol')
+            rounds = [True, False] if self.pe.prime else [False]
+            for prime in rounds:
+                self.generic_bind(s.target, it, fr, s, prime)
+                old = self.nofork
+                self.nofork = old or (self.pe.prime and not prime)
+                try:
+                    self.block(s.body, fr)
+                except _Cont:
+                    pass
+                except _Brk:
+                    raise _Undecidable('break out of a loop over a symbol')
+                except _Ret:
+                    raise _Undecidable('return out of a loop over a symbol')
+                finally:
+                    self.nofork = old
+            return
+        broke = False
+        for item in self.sequence(it):
+            self.bind(s.target, item, fr, s)
+            try:
+                self.block(s.body, fr)
+            except _Cont:
+                continue
+            except _Brk:
+                broke = True
+                break
+        if not broke:
+            self.block(s.orelse, fr)
+
+
+_ANCHORS = ('get_trajectory_emissions', 'get_LTO_emissions', 'get_APU_emissions', 'get_GSE_emissions', 'get_lifecycle_emissions',
+            'sum_total_emissions')
+_CO2_ON = 'Species.CO2 in config.emissions.enabled_species'
+_LC_ON = 'config.emissions.lifecycle_enabled'
+
+
+def _explore(ctx, rule, fi, **kw):
+    try:
+        return [p for p in _PE(ctx.prog, **kw).explore(fi) if p.outcome[0] == 'return']
+    except _Undecidable as e:
+        ctx.undecided(rule, fi, f'{fi.name}(…) followed path by path', f'cannot follow the function: {e}')
+
+
+def _when(path, texts=None, skip=()):
+    """the tests of a path (those in `texts`, or all) as words"""
+    parts = [f'`{path.show(t)}` is {"true" if v else "false"}' for t, v in path.order if (texts is None or t in texts) and t not in skip]
+    return ' and '.join(parts) if parts else 'always'
+
+
+def _strip_float(v):
+    while isinstance(v, _Sym) and isinstance(v.e, ast.Call) and call_name(v.e) == 'float' and len(v.e.args) == 1 and not v.e.keywords:
+        v = _Sym(v.e.args[0])
+    return v
+
+
+def _component_of(path, a):
+    """(reported fuel, index map, producer) of the component whose `.emissions` the value a is: `<c>.emissions` of a
+    symbol c (producer = the repository function whose result c is, when it is one), or the amounts held by a record
+    that also has a fuel_burn field (producer 'empty' while those amounts are a new, unwritten, empty map).  None when a
+    is nothing of the kind."""
+    if isinstance(a, _Sym) and isinstance(a.e, ast.Attribute) and a.e.attr == 'emissions' and a.owner is None:
+        base = a.e.value
+        prod = next((c for c in path.calls if c.text == norm(base)), None)
+        return (_Sym(ast.Attribute(base, 'fuel_burn', ast.Load())), _Sym(ast.Attribute(base, 'indices', ast.Load())),
+                prod.callee.name if prod is not None and prod.callee is not None else None)
+    if isinstance(a, _Sym) and a.owner is not None and a.owner[1] == 'emissions' and 'fuel_burn' in a.owner[0].fields:
+        rec = a.owner[0]
+        untouched = a.empty and not any(m.obj is a for m in path.muts)
+        return rec.fields['fuel_burn'], rec.fields.get('indices'), 'empty' if untouched else None
+    return None
+
+
+def _same(path, a, b):
+    """one value: the same object, or symbols with one canonical text (two new empty maps only while nothing was written
+    into either: then they are equal by content, which is what the reported parts are compared by)"""
+    if a is b:
+        return True
+    if isinstance(a, (_Sym, _Lin)) and isinstance(b, (_Sym, _Lin)):
+        if norm(_pe_ast(a)) != norm(_pe_ast(b)):
+            return False
+        return not any(getattr(x, 'empty', False) and any(m.obj is x for m in path.muts) for x in (a, b))
+    if isinstance(a, _PE_CONST) and isinstance(b, _PE_CONST):
+        return a == b
+    return False
+
+
+def _inventory(ctx):
+    """compute_emissions followed path by path: per returning path the Emissions record it returns, the call of
+    sum_total_emissions behind its totals, and per summed source the component it belongs to"""
+    if 'inv' in _INV_CACHE and _INV_CACHE['inv'][0] is ctx:
+        return _INV_CACHE['inv'][1]
     prog = ctx.prog
     m = prog.module(EM)
-    st = m.func('sum_total_emissions')
-    ce = m.func('compute_emissions')
-    loops = [n for n in walk_no_nested(st.node) if isinstance(n, ast.For)]
-    im = iterated_mapping(loops[0].iter) if loops else None
-    ok = len(loops) == 1 and im is not None and im[1] == 'keys' and norm(im[0]) == 'Species' and isinstance(loops[0].target, ast.Name)
-    ctx.ob('C01-R1', st, f'totals computed for every member of {norm(loops[0].iter) if loops else "?"}', ok,
-           'whole Species enum' if ok else 'the total is not formed for every species', line=(loops[0].lineno if loops else 0))
-    if not ok:
-        return {}, None
-    lp = loops[0]
-    kv = lp.target.id
-    # the accumulator is whatever is stored as the species' result
-    res_all = [s for t, s, how in stores_to(st.node) if isinstance(t, ast.Subscript) and norm(t.slice) == kv and how == 'assign'
-               and any(x is lp for x in ancestors(s))]
-    res = [s for s in res_all if isinstance(s.value, ast.Name)]
-    # a species whose result is set to something else than the accumulated sum: fine only where no source can have it
-    for s in res_all:
-        if s in res:
-            continue
-        atoms = _loop_facts(s, lp)
-        absent = all(any(not pol and _is_membership(t, kv, p) for t, pol in atoms)
-                     or (p in ('apu', 'gse') and any(not pol and norm(t) == f'config.emissions.{p}_enabled' for t, pol in atoms))
-                     for p in st.params)
-        ok = absent and const_value(s.value) == 0 and not isinstance(const_value(s.value), bool)
-        ctx.ob('C01-R1', st, norm(s)[:60], ok, 'no source has the species on this path, and the total is zero' if ok else
-               (f'for the species that reach this line the total is set to `{norm(s.value)[:30]}` instead of the sum of the sources: the APU and '
-                f'GSE parts (and any other source that has the species) still report their amounts, so the total no longer equals the '
-                'sum of the parts'), line=s.lineno)
-    acc = res[0].value.id if len({s.value.id for s in res}) == 1 else None
-    if acc is None:
-        ctx.undecided('C01-R1', st, f'<result>[{kv}] = <accumulator>', 'cannot tell which local accumulates the species total')
-    # terms are added to the accumulator - or, once it has been stored, to the species' element of the result itself
-    res_elem = {norm(t) for s_ in res for t in s_.targets if isinstance(t, ast.Subscript)}
-    adds = [n for n in ast.walk(lp) if isinstance(n, ast.AugAssign) and (norm(n.target) == acc or (
-        norm(n.target) in res_elem and res and n.lineno > res[0].lineno))]
+    ce, st = m.func('compute_emissions'), m.func('sum_total_emissions')
+    out = []
+    for path in _explore(ctx, 'C01-R1', ce, opaque=_ANCHORS):
+        ret = path.outcome[1]
+        if not (isinstance(ret, _Rec) and ret.cls.name == 'Emissions'):
+            ctx.undecided('C01-R1', ce, 'return Emissions(…)', f'a path returns `{path.show(ret) if ret is not None else None}`, not an Emissions record')
+        tot = ret.fields.get('total_emissions')
+        out.append({'path': path, 'ret': ret, 'tot': tot, 'sum': isinstance(tot, _Sym) and tot.callee is not None and tot.callee.node is st.node})
+    _INV_CACHE['inv'] = (ctx, (ce, st, out))
+    return ce, st, out
+
+
+_INV_CACHE = {}
+
+
+def rule_sum(ctx):
+    ce, st, inv = _inventory(ctx)
     params = st.params
-    seen = {}
-    for a in adds:
-        src = next((p for p in params if f'{p}[{kv}]' in norm(a.value)), None)
-        seen.setdefault(src, []).append(a)
+    # ---- the call site: every source parameter receives the amounts of its own component, the same maps are reported
+    line_of = lambda rec, k: next((kw_.value.lineno for kw_ in getattr(getattr(rec, 'node', None), 'keywords', []) if kw_.arg == k),
+                                  getattr(getattr(rec, 'node', None), 'lineno', ce.node.lineno))
+    bad, nonempty, unknown, fbad = {}, {p: [] for p in params}, set(), {}
+
+    def arg_line(tot, p):
+        node = getattr(tot, 'node', None)
+        return next((k.value.lineno for k in getattr(node, 'keywords', []) if k.arg == p), getattr(node, 'lineno', ce.node.lineno))
+    for r in inv:
+        path, ret, tot = r['path'], r['ret'], r['tot']
+        if not r['sum']:
+            bad.setdefault(('Emissions.total_emissions', f'field `total_emissions` reports `{path.show(tot)}`, which is not the result of '
+                            'sum_total_emissions over the components'), line_of(ret, 'total_emissions'))
+            continue
+        for p in params:
+            a = tot.args.get(p)
+            if a is None:
+                bad.setdefault((f'sum_total_emissions({p}=…)', f'source `{p}` is not passed to the sum: its amounts are missing from every total'),
+                               arg_line(tot, p))
+                continue
+            comp = _component_of(path, a)
+            if comp is None:
+                bad.setdefault((f'{p}={path.show(a)}', f'parameter `{p}` receives `{path.show(a)}`, which is not the amount map of a component'),
+                               arg_line(tot, p))
+                continue
+            fuel, idx, prod = comp
+            r.setdefault('comps', {})[p] = comp
+            if prod != 'empty':
+                nonempty[p].append(path)
+            if prod is None:
+                unknown.add(p)
+            if prod not in (None, 'empty') and prod.lower() != f'get_{p}_emissions'.lower() and prod.lower().startswith('get_'):
+                bad.setdefault((f'{p}={path.show(a)}', f'parameter `{p}` receives `{path.show(a)}`, the amounts produced by {prod}'), arg_line(tot, p))
+            for fld, want in ((f'{p}_emissions', a), (f'{p}_indices', idx)):
+                if fld in ret.fields and want is not None and not _same(path, ret.fields[fld], want):
+                    got_empty = bool(getattr(ret.fields[fld], 'empty', False))
+                    if fld in fbad and (got_empty or not fbad[fld][3]):
+                        continue
+                    fbad[fld] = (f'Emissions.{fld} = {path.show(ret.fields[fld])}',
+                                 f'field `{fld}` reports `{path.show(ret.fields[fld])}` while the amounts summed as `{p}` are `{path.show(a)}`'
+                                 + (f' (indices `{path.show(idx)}`)' if fld.endswith('indices') else '')
+                                 + ': the reported parts are not the parts of the total', line_of(ret, fld), got_empty)
+    for construct, why, line, _e in fbad.values():
+        bad.setdefault((construct, why), line)
+    for (construct, why), line in bad.items():
+        ctx.ob('C01-R1', ce, construct, False, why, line=line)
+    _INV_CACHE['miswired'] = bool(bad)
+    if not bad:
+        ctx.ob('C01-R1', ce, f'sum_total_emissions({", ".join(params)}) and the Emissions fields', True,
+               f'on each of {len(inv)} path(s) every source parameter receives the amount map of its own component and the record reports '
+               'those very maps (and that component\'s indices)')
+    ctx.floor('C01-R1', len(params), 4, 'sources summed')
+    # ---- the switches that decide whether a source can have amounts at all
+    cfg = {}
+    for p in params:
+        atoms = {t for r in inv for t in r['path'].decisions if 'config.emissions' in t}
+        cfg[p] = {t for t in atoms if nonempty[p] and all(path.decisions.get(t) is True for path in nonempty[p])}
+        if p in unknown or bad:
+            cfg[p] = None           # made by something that is not followed: any configuration switch may be what gates it
+    # ---- the life-cycle adjustment
+    lc_bad = {}
+    n_adj = 0
+    for r in inv:
+        if not r['sum']:
+            continue
+        path, ret, tot = r['path'], r['ret'], r['tot']
+        srcs = [a for a in tot.args.values() if isinstance(a, _Sym)]
+        for mt in path.muts:
+            if any(mt.obj is a or (not a.empty and mt.obj.text == a.text) for a in srcs):
+                lc_bad.setdefault((norm(mt.node)[:60], f'the amounts of a component (`{path.show(mt.obj)}`) are changed in compute_emissions after their '
+                                   'producer formed them as index × fuel'), mt.node.lineno)
+        adj = [mt for mt in path.muts if mt.obj is tot]
+        total_adj = 0
+        for mt in adj:
+            if mt.op == '+=' and isinstance(mt.key, _Sym) and mt.key.text == 'Species.CO2':
+                total_adj = _lin_add(total_adj, mt.value)
+            else:
+                lc_bad.setdefault((norm(mt.node)[:60], 'totals are modified after the sum other than by adding the life-cycle adjustment to CO2'),
+                                  mt.node.lineno)
+        rep = ret.fields.get('lifecycle_co2')
+        rep_l, adj_l = _lin_of(rep), _lin_of(total_adj)
+        line = adj[0].node.lineno if adj else line_of(ret, 'lifecycle_co2')
+        if rep_l is None or adj_l is None:
+            ctx.undecided('C01-R1', ce, 'life-cycle adjustment', f'cannot compare `{path.show(rep)}` with what is added to the CO2 total')
+        if rep_l.coefs() != adj_l.coefs() or (not rep_l.terms and rep_l.const != adj_l.const):
+            lc_bad.setdefault(('lifecycle_co2 vs. total[CO2]', f'when {_when(path, (_CO2_ON, _LC_ON))} the record reports lifecycle_co2 = '
+                               f'`{path.show(rep)}` but the CO2 total is adjusted by `{path.show(total_adj)}`: total CO2 ≠ parts + reported '
+                               'life-cycle adjustment'), line)
+        applied = bool(adj_l.terms) or adj_l.const != 0
+        on = path.decisions.get(_CO2_ON) is True and path.decisions.get(_LC_ON) is True
+        n_adj += applied
+        if applied != on:
+            lc_bad.setdefault(('life-cycle adjustment under its switches', (f'the adjustment is applied when {_when(path, (_CO2_ON, _LC_ON))}' if applied
+                               else 'the adjustment is not applied although CO2 is enabled and the life-cycle switch is on')
+                               + ' (it belongs to the paths on which CO2 is an enabled species and the life-cycle switch is on)'), line)
+    for (construct, why), line in lc_bad.items():
+        ctx.ob('C01-R1', ce, construct, False, why, line=line)
+    if not lc_bad:
+        ctx.ob('C01-R1', ce, 'only CO2 gets the life-cycle adjustment, and it is reported', n_adj > 0,
+               'total[CO2] += x with the same x reported as lifecycle_co2, exactly on the paths with the CO2 and life-cycle switches on'
+               if n_adj else 'no path applies the life-cycle adjustment')
+    # ---- sum_total_emissions itself, path by path
+    _rule_sum_function(ctx, st, cfg)
+    return {}, None
+
+
+def _lin_of(v):
+    if v is None:
+        return _Lin([], 0)
+    return _pe_lin(_strip_float(v) if isinstance(v, _Sym) else v)
+
+
+def _lin_add(a, b):
+    la, lb = _lin_of(a), _lin_of(b)
+    if la is None or lb is None:
+        return _Sym(ast.BinOp(_pe_ast(a), ast.Add(), _pe_ast(b)))
+    return _Lin(la.terms + lb.terms, la.const + lb.const)
+
+
+def _final_entries(path, res):
+    """{key class: value} - what the map `res` holds at the end of the path: ('each', <what the loop ranges over>, primed)
+    for a store under the variable of a loop over a symbol, ('const', text) otherwise.  A constructor call that copies
+    one map is looked through."""
+    chain = [res]
+    while True:
+        x = chain[-1]
+        a = x.args.get('*') if isinstance(x.args, dict) else None
+        if x.callee is None and a and len(a) == 1 and len(x.args) == 1 and isinstance(a[0], _Sym) and a[0].fresh \
+                and (x.fname or '')[:1].isupper() or (x.callee is None and a and len(a) == 1 and len(x.args) == 1
+                                                     and isinstance(a[0], _Sym) and a[0].fresh and x.fname == 'dict'):
+            chain.append(a[0])
+        else:
+            break
+    keys = {l_['key']: ('each', l_['over'], l_['prime']) for l_ in path.loops}
+    state = {}
+    for obj in reversed(chain):
+        for mt in path.muts:
+            if mt.obj is not obj:
+                continue
+            if mt.op in ('=', '+=', '-=') and isinstance(mt.key, (_Sym,) + _PE_CONST):
+                kc = keys.get(mt.key.text, ('const', mt.key.text)) if isinstance(mt.key, _Sym) else ('const', repr(mt.key))
+                if mt.op == '=':
+                    state[kc] = mt.value
+                else:
+                    cur = state.get(kc, _Sym(ast.Subscript(obj.e, _pe_ast(mt.key), ast.Load())))
+                    state[kc] = _pe_binop(cur, ast.Add() if mt.op == '+=' else ast.Sub(), mt.value)
+            else:
+                raise _Undecidable(f'the result is changed by `{norm(mt.node)[:50]}`')
+    return state
+
+
+def _reduction(e, base):
+    """how the source's value for the species (`base`) enters: 'itself', 'sum' (np.sum / sum / math.fsum of it),
+    'method-sum' (its own .sum()), 'sum-of-values' (sum over .values() / .as_array()); None for anything else"""
+    while isinstance(e, ast.Call) and call_name(e) == 'float' and len(e.args) == 1 and not e.keywords:
+        e = e.args[0]
+    if norm(e) == base:
+        return 'itself'
+    inner = None
+    if isinstance(e, ast.Call) and call_name(e) in ('np.sum', 'numpy.sum', 'sum', 'math.fsum', 'fsum') and len(e.args) == 1 and not e.keywords:
+        inner, how = e.args[0], 'sum'
+    elif isinstance(e, ast.Call) and isinstance(e.func, ast.Attribute) and e.func.attr == 'sum' and not e.args and not e.keywords:
+        inner, how = e.func.value, 'method-sum'
+    if inner is None:
+        return None
+    if norm(inner) == base:
+        return how
+    while isinstance(inner, ast.Call) and call_name(inner) in ('list', 'tuple') and len(inner.args) == 1:
+        inner = inner.args[0]
+    if isinstance(inner, ast.Call) and isinstance(inner.func, ast.Attribute) and inner.func.attr in ('values', 'as_array') \
+            and not inner.args and norm(inner.func.value) == base:
+        return 'sum-of-values'
+    return None
+
+
+def _rule_sum_function(ctx, st, cfg):
+    import re
+    params = st.params
     shape_of = {}
     for arg in st.node.args.posonlyargs + st.node.args.args + st.node.args.kwonlyargs:
         an = norm(arg.annotation) if arg.annotation is not None else ''
         shape_of[arg.arg] = 'array' if 'ndarray' in an else 'modes' if 'ThrustModeValues' in an else 'scalar' if 'float' in an else None
     fallback = {'trajectory': 'array', 'lto': 'modes', 'apu': 'scalar', 'gse': 'scalar'}
     allowed = {'array': {'sum', 'method-sum'}, 'modes': {'method-sum', 'sum-of-values'}, 'scalar': {'itself'}}
+    paths = _explore(ctx, 'C01-R1', st, opaque=())
+    if not paths:
+        ctx.undecided('C01-R1', st, 'sum_total_emissions', 'no path returns')
+    viol = {}            # (construct, kind) -> (score, why, line)
 
-    def reduction(e, p):
-        """how the source's value for the species enters: 'itself', 'sum' (np.sum / sum / math.fsum of it), 'method-sum'
-        (its own .sum()), 'sum-of-values' (sum over .values() / .as_array()); None for anything else"""
-        base = f'{p}[{kv}]'
-        while isinstance(e, ast.Call) and call_name(e) == 'float' and len(e.args) == 1 and not e.keywords:
-            e = e.args[0]
-        if norm(e) == base:
-            return 'itself'
-        inner = None
-        if isinstance(e, ast.Call) and call_name(e) in ('np.sum', 'numpy.sum', 'sum', 'math.fsum', 'fsum') and len(e.args) == 1 and not e.keywords:
-            inner, how = e.args[0], 'sum'
-        elif isinstance(e, ast.Call) and isinstance(e.func, ast.Attribute) and e.func.attr == 'sum' and not e.args and not e.keywords:
-            inner, how = e.func.value, 'method-sum'
-        if inner is None:
-            return None
-        if norm(inner) == base:
-            return how
-        while isinstance(inner, ast.Call) and call_name(inner) in ('list', 'tuple') and len(inner.args) == 1:
-            inner = inner.args[0]
-        if isinstance(inner, ast.Call) and isinstance(inner.func, ast.Attribute) and inner.func.attr in ('values', 'as_array') \
-                and not inner.args and norm(inner.func.value) == base:
-            return 'sum-of-values'
-        return None
+    def report(construct, kind, score, why, line):
+        k = (construct, kind)
+        if k not in viol or score < viol[k][0]:
+            viol[k] = (score, why, line)
 
+    n_each, over_seen, judged, left, status = 0, set(), {p: 0 for p in params}, {}, {p: [] for p in params}
+    for path in paths:
+        res = path.outcome[1]
+        if not (isinstance(res, _Sym) and res.fresh):
+            ctx.undecided('C01-R1', st, 'return <totals>', f'a path returns `{path.show(res) if res is not None else None}`, not a map built here')
+        try:
+            state = _final_entries(path, res)
+        except _Undecidable as e:
+            ctx.undecided('C01-R1', st, 'return <totals>', str(e))
+        over_seen |= {l_['over'] for l_ in path.loops}
+        main = [(kc, v) for kc, v in state.items() if kc[0] == 'each' and kc[1] == 'Species']
+        for kc, v in state.items():
+            if kc[0] != 'each':
+                report(f'<totals>[{kc[1]}]', 'const', 0, f'the total of `{kc[1]}` is written separately (`{path.show(v)}`) instead of being the sum of '
+                       'the sources', st.node.lineno)
+        loop = next((l_ for l_ in path.loops if l_['over'] == 'Species' and not l_['prime']), None)
+        if loop is None:
+            continue
+        kv, line = loop['key'], loop['node'].lineno
+        memb = {p: path.decisions.get(f'{kv} in {p}') for p in params}
+        own = {f'{kv} in {p}' for p in params}
+        if not main:
+            report('<totals>[species]', 'none', len(path.order), f'no total is stored for a species when {_when(path)}: the inventory reports parts '
+                   'for it but no total', line)
+            continue
+        n_each += 1
+        v = main[0][1]
+        lin = _lin_of(v)
+        if lin is None:
+            ctx.undecided('C01-R1', st, f'<totals>[{kv}]', f'the stored total `{path.show(v)}` is not a sum')
+        seen = {p: [] for p in params}
+        for c, s in lin.terms:
+            src = [p for p in params if re.search(rf'(?<![\w.]){re.escape(p)}\[{re.escape(kv)}\]', s.text)]
+            if len(src) == 1:
+                seen[src[0]].append((c, s))
+            elif re.search(r'(?<![\w.])other_' + re.escape(kv) + r'\b', s.text):
+                report(f'<totals>[{kv}]', 'leak', 0, f'the total of one species contains `{s.text}`, an amount of another species: the accumulator is '
+                       'not reset for each species (totals leak between species)', line)
+            else:
+                report(f'extra term {path.show(s)}', 'extra', 0, f'`{path.show(s)}` is added to the species total: something other than the amounts '
+                       f'of the four sources for that species', line)
+        if lin.const != 0:
+            report(f'<totals>[{kv}] starts from {lin.const}', 'const0', 0, f'the species total starts from {lin.const}, not from zero', line)
+        for p in params:
+            gates = cfg.get(p) if cfg.get(p) is not None else {t for t in path.decisions if t.startswith('config.emissions.')}
+            off = [t for t in gates if path.decisions.get(t) is False]
+            terms = seen[p]
+            n = sum(c for c, _s in terms)
+            blame = [(t, val) for t, val in path.order if t != f'{kv} in {p}' and t not in gates]
+            blame.sort(key=lambda tv: (tv[0] not in own, tv[0].startswith('config.')))       # dropped in this order
+            if len(terms) > 1 or n not in (0, 1):
+                report(f'source {p} enters the total', 'count', len(path.order), f'source `{p}` is added {n} times to the species total '
+                       f'(when {_when(path)})', line)
+                continue
+            if terms:
+                base = f'{p}[{kv}]'
+                red = _reduction(terms[0][1].e, base)
+                shape = shape_of.get(p) or fallback.get(p)
+                if red is None or red not in allowed.get(shape, ()):
+                    report(f'{p} reduced by `{terms[0][1].text}`', 'shape', 0, f'a per-species {shape} value must enter as '
+                           f'{sorted(allowed.get(shape, ()))}, not as `{terms[0][1].text[:50]}`', line)
+                if memb[p] is not True:
+                    report(f'{p} read only when it has the species', 'memb', len(path.order),
+                           f'{base} is read without a membership test (when {_when(path)})', line)
+                judged[p] += 1
+                status[p].append((path, 'in', line))
+            elif memb[p] is not False and not off:
+                status[p].append((path, 'out', line))
+                score = len(path.order)
+                if p not in left or score < left[p][0]:
+                    left[p] = (score, blame, line, path)
+            else:
+                judged[p] += 1
+    by_words = {}
+    for p, (_score, blame, line, path) in left.items():
+        # the fewest tests that already decide it: a test is dropped from the blame while every path that agrees on the
+        # remaining ones (and on which the source has to be there) still leaves the source out
+        blame = list(blame)
+        for t, val in list(blame):
+            rest = [(t2, v2) for t2, v2 in blame if t2 != t]
+            agree = [(q, how) for q, how, _l in status[p] if all(q.decisions.get(t2) == v2 for t2, v2 in rest)]
+            if agree and all(how == 'out' for _q, how in agree):
+                blame = rest
+        if not any(how == 'in' for _q, how, _l in status[p]):
+            words = 'on every path (it is never added)'
+        else:
+            words = 'when ' + (' and '.join(f'`{t}` is {"true" if val else "false"}' for t, val in blame) or 'always')
+        by_words.setdefault(words, []).append((p, line))
+    for words, ps in by_words.items():
+        names = [p for p, _l in ps]
+        sw = {p: sorted(cfg.get(p) or ()) for p in names}
+        computed = '; '.join(f'`{p}` is computed (and its fuel counted) ' + (f'under {sw[p]}' if sw[p] else 'always') for p in names)
+        report(f'{", ".join(names)} added for every species {"it has" if len(names) == 1 else "they have"}', 'left-out', 0,
+               f'source{"s" if len(names) > 1 else ""} {", ".join(f"`{p}`" for p in names)} {"are" if len(names) > 1 else "is"} left out of the '
+               f'species total {words}, although {computed}: a species such a source has then keeps its part but the total does not '
+               'contain it - total ≠ sum of the parts', ps[0][1])
+    ok = n_each > 0
+    ctx.ob('C01-R1', st, f'totals computed for every member of {"Species" if ok else (sorted(over_seen) or ["?"])[0]}', ok,
+           'whole Species enum' if ok else 'the total is not formed for every species', line=st.node.lineno)
+    if not ok:
+        return
+    for (construct, kind), (_score, why, line) in sorted(viol.items(), key=lambda kv_: (kv_[1][2], kv_[0])):
+        ctx.ob('C01-R1', st, construct, False, why, line=line)
     for p in params:
-        a = seen.get(p, [])
-        ok = len(a) == 1 and isinstance(a[0].op, ast.Add)
-        why = 'added exactly once'
-        if len(a) != 1:
-            why = f'source `{p}` is added {len(a)} times to the species total'
-        ctx.ob('C01-R1', st, f'source {p} enters the total', ok, why, line=(a[0].lineno if a else lp.lineno))
-        if a:
-            red = reduction(a[0].value, p)
-            shape = shape_of.get(p) or fallback.get(p)
-            okr = red is not None and red in allowed.get(shape, ())
-            ctx.ob('C01-R1', st, f'{p} reduced by `{norm(a[0].value)}`', okr, f'{red} of a per-species {shape} value' if okr
-                   else f'a per-species {shape} value must enter as {sorted(allowed.get(shape, ()))}, not as `{norm(a[0].value)[:50]}`',
-                   line=a[0].lineno, nontrivial=False)
-            atoms = _loop_facts(a[0], lp)
-            own = [t for t, pol in atoms if pol and _is_membership(t, kv, p)]
-            memb = bool(own)
-            ctx.ob('C01-R1', st, f'{p} read only when it has the species', memb, f'`{norm(own[0])}`' if memb else
-                   f'{p}[{kv}] is read without a membership test', line=a[0].lineno, nontrivial=False)
-            # … and whenever it has it: a condition on anything else (another source's membership, an earlier
-            # `continue`) makes the total miss this source's amount for some species
-            foreign = [(t, pol) for t, pol in atoms if not _is_membership(t, kv, p)
-                       and not (pol and p in ('apu', 'gse') and 'config.emissions' in norm(t))]
-            ctx.ob('C01-R1', st, f'{p} added for every species it has', not foreign,
-                   'nothing but its own membership test (and its switch) decides' if not foreign else
-                   f'`{norm(a[0])}` also depends on `{"" if foreign[0][1] else "not "}{norm(foreign[0][0])[:60]}`: a species that `{p}` '
-                   'has is left out of the total when that condition fails - total ≠ sum of the parts', line=a[0].lineno)
-    ctx.floor('C01-R1', len([p for p in params if p in seen]), 4, 'sources summed')
-    extra = [a for s, al in seen.items() if s is None for a in al]
-    for a in extra:
-        ctx.ob('C01-R1', st, f'extra term {norm(a)}', False, 'something other than the four sources is added to the total', line=a.lineno)
-    ok = len(res) == 1
-    ctx.ob('C01-R1', st, f'result[{kv}] = {acc}', ok, 'stored per species' if ok else 'the accumulated total is not what is stored')
-    tot0 = [s for t, s, how in stores_to(lp) if norm(t) == acc and how in ('assign', 'ann')]
-    ok = len(tot0) == 1 and isinstance(tot0[0].value, ast.Constant) and tot0[0].value.value == 0 and not isinstance(tot0[0].value.value, bool) \
-        and tot0[0] in lp.body and all(tot0[0].lineno < a.lineno for a in adds)
-    ctx.ob('C01-R1', st, 'accumulator reset per species', ok, f'{acc} = 0.0 at the top of the loop body' if ok else
-           'the accumulator is not reset for each species (totals leak between species)')
-    # switches
-    for comp in ('apu', 'gse'):
-        a = seen.get(comp, [])
-        sg = {norm(t) for x in a for t, pol in _loop_facts(x, lp) if pol and 'config.emissions' in norm(t)}
-        cc = [c for c in calls_in(ce.node) if call_name(c).lower() == f'get_{comp}_emissions']
-        cg = set()
-        if cc:
-            for t, pol, _ in guards_of(cc[0]):
-                for c in norm(t).split(' and '):
-                    if 'config.emissions' in c and pol:
-                        cg.add(c)
-        ok = sg == cg and len(sg) == 1
-        ctx.ob('C01-R1', st, f'{comp}: summed under {sorted(sg)}, computed under {sorted(cg)}', ok,
-               'one and the same switch' if ok else
-               f'{comp.upper()} is computed (and its fuel counted) under one switch but summed under another: '
-               'with exactly one of them on, the species totals no longer equal the sum of the parts',
-               line=(a[0].lineno if a else lp.lineno))
-    # call site
-    call = next((c for c in calls_in(ce.node) if call_name(c) == 'sum_total_emissions'), None)
-    if call is None:
-        ctx.undecided('C01-R1', ce, 'sum_total_emissions(...)', 'call not found')
-    for k in call.keywords:
-        ok = norm(k.value) == f'{k.arg}.emissions'
-        ctx.ob('C01-R1', ce, f'{k.arg}={norm(k.value)}', ok, 'component passed to its own parameter' if ok else
-               f'parameter `{k.arg}` receives `{norm(k.value)}`', line=k.value.lineno)
-    ok = sorted(k.arg for k in call.keywords) == sorted(params)
-    ctx.ob('C01-R1', ce, 'all four sources passed', ok, 'trajectory, lto, apu, gse' if ok else 'a source is missing from the sum', nontrivial=False)
-    # Emissions(...) fields receive their own component
-    ec = next((c for c in calls_in(ce.node) if call_name(c) == 'Emissions'), None)
-    if ec is not None:
-        want = {'trajectory_emissions': 'trajectory.emissions', 'trajectory_indices': 'trajectory.indices',
-                'lto_emissions': 'lto.emissions', 'lto_indices': 'lto.indices', 'apu_emissions': 'apu.emissions',
-                'apu_indices': 'apu.indices', 'gse_emissions': 'gse.emissions', 'total_emissions': 'total_emissions',
-                'fuel_burn_per_segment': 'fuel_burn_per_segment', 'total_fuel_burn': 'float(total_fuel_burn)'}
-        for k in ec.keywords:
-            ok = want.get(k.arg) == norm(k.value)
-            ctx.ob('C01-R1', ce, f'Emissions.{k.arg} = {norm(k.value)}', ok, 'own component' if ok else
-                   f'field `{k.arg}` reports `{norm(k.value)}`', line=k.value.lineno, nontrivial=False)
-    # life-cycle adjustment
-    post = [s for t, s, how in stores_to(ce.node) if 'total_emissions' in norm(t) and s.lineno > stmt_of(call).lineno
-            and not (isinstance(t, ast.Name))]
-    ok = len(post) == 1 and isinstance(post[0], ast.AugAssign) and isinstance(post[0].op, ast.Add) \
-        and norm(post[0].target) == 'emissions.total_emissions[Species.CO2]'
-    x = norm(post[0].value) if post else None
-    lc = [s for t, s, how in stores_to(ce.node) if norm(t) == 'emissions.lifecycle_co2']
-    ok = ok and len(lc) == 1 and norm(lc[0].value) == x and getattr(lc[0], '_parent', None) is getattr(post[0], '_parent', None)
-    gs = {c for t, pol, _ in (guards_of(post[0]) if post else []) if pol for c in norm(t).split(' and ')}
-    ok = ok and gs == {'Species.CO2 in config.emissions.enabled_species', 'config.emissions.lifecycle_enabled'}
-    ctx.ob('C01-R1', ce, 'only CO2 gets the life-cycle adjustment, and it is reported', ok,
-           f'total[CO2] += {x}; lifecycle_co2 = {x} under the CO2 and life-cycle switches' if ok else
-           'totals are modified after the sum other than by the reported life-cycle CO2 adjustment',
-           line=(post[0].lineno if post else ce.node.lineno))
-    return seen, call
-
-
-def _is_membership(t, kv, p):
-    """t tests that the species `kv` is a key of source `p`: `kv in p`, `kv in p.keys()`"""
-    if not (isinstance(t, ast.Compare) and len(t.ops) == 1 and isinstance(t.ops[0], ast.In) and norm(t.left) == kv):
-        return False
-    r = t.comparators[0]
-    if isinstance(r, ast.Call) and isinstance(r.func, ast.Attribute) and r.func.attr == 'keys' and not r.args:
-        r = r.func.value
-    return norm(r) == p
-
-
-def _loop_facts(node, lp):
-    """[(test, polarity)] the statement `node` of loop lp depends on within one iteration: enclosing ifs /
-    conditional expressions, and earlier `if c: continue / break` of its enclosing blocks (as `not c`); negative
-    comparisons read as their positive twin"""
-    from ..astutil import conjuncts, last_stmt
-    fs = [(t, pol) for t, pol, _ in guards_of(node, stop=lp)]
-    child = node
-    for a in ancestors(node):
-        for f in ('body', 'orelse'):
-            bl = getattr(a, f, None)
-            if isinstance(bl, list) and any(child is x for x in bl):
-                for x in bl:
-                    if x is child:
-                        break
-                    if isinstance(x, ast.If) and isinstance(last_stmt(x.body), (ast.Continue, ast.Break, ast.Return, ast.Raise)):
-                        fs.append((x.test, False))
-                    elif isinstance(x, ast.If) and x.orelse and isinstance(last_stmt(x.orelse), (ast.Continue, ast.Break, ast.Return, ast.Raise)):
-                        fs.append((x.test, True))
-        if a is lp:
+        if p not in left and not any(c.startswith(f'source {p} ') or c.startswith(f'{p} re') for c, _k in viol):
+            sw = sorted(cfg.get(p) or ())
+            ctx.ob('C01-R1', st, f'source {p} enters the total', True,
+                   f'on {len(paths)} paths: added exactly once, reduced as its shape demands, exactly when the species is a key of `{p}`'
+                   + (f' (and {sw} - the switch under which it is computed - is on)' if sw else ''))
+    # the accumulator is per species: a second generic iteration must not see anything of the first
+    for path in _explore(ctx, 'C01-R1', st, opaque=(), prime=True):
+        res = path.outcome[1]
+        try:
+            state = _final_entries(path, res) if isinstance(res, _Sym) else {}
+        except _Undecidable:
+            state = {}
+        leak = None
+        for kc, v in state.items():
+            if kc[0] == 'each' and kc[1] == 'Species' and not kc[2]:
+                lin = _lin_of(v)
+                for _c, s in (lin.terms if lin is not None else []):
+                    if 'other_' in s.text:
+                        leak = s.text
+        if leak:
+            ctx.ob('C01-R1', st, 'accumulator reset per species', False, f'the total of one species contains `{leak}`, an amount of the species '
+                   'handled before it: the accumulator is not reset for each species (totals leak between species)', line=st.node.lineno)
             break
-        child = a
-    out = []
-    for t, pol in fs:
-        for x, p_ in conjuncts(t, pol):
-            if isinstance(x, ast.Compare) and len(x.ops) == 1 and isinstance(x.ops[0], ast.NotIn):
-                x, p_ = ast.copy_location(ast.Compare(left=x.left, ops=[ast.In()], comparators=x.comparators), x), not p_
-            out.append((x, p_))
-    return out
+    else:
+        ctx.ob('C01-R1', st, 'accumulator reset per species', True, 'nothing of one generic iteration reaches the total of the next')
+
+
+def _rule_total_fuel(ctx):
+    """R2: on every path the reported total fuel is the sum of the reported fuel of exactly the components whose amounts
+    are summed."""
+    ce, st, inv = _inventory(ctx)
+    if _INV_CACHE.get('miswired'):
+        ctx.note('C01-R2 not judged: the sources of the sum are not the components (see C01-R1)')
+        return inv
+    bad, n, count = {}, 0, {}
+    for r in inv:
+        path, ret = r['path'], r['ret']
+        comps = r.get('comps', {})
+        if not r['sum'] or len(comps) < len(st.params):
+            continue
+        n += 1
+        tf = ret.fields.get('total_fuel_burn')
+        got = _lin_of(tf)
+        want = _Lin([], 0)
+        for p in st.params:
+            f = _lin_of(comps[p][0])
+            if f is None:
+                ctx.undecided('C01-R2', ce, f'{p}.fuel_burn', f'the reported fuel `{path.show(comps[p][0])}` of `{p}` is not a number or a symbol')
+            want = _Lin(want.terms + f.terms, want.const + f.const)
+        if got is None:
+            ctx.undecided('C01-R2', ce, 'Emissions.total_fuel_burn', f'`{path.show(tf)}` is not a sum')
+        g, w = got.coefs(), want.coefs()
+        if g == w and abs(got.const - want.const) < 1e-300:
+            continue
+        why = []
+        for p in st.params:
+            for t, c in _lin_of(comps[p][0]).coefs().items():
+                if g.get(t, 0) != w[t]:
+                    why.append(f'the fuel of `{p}` (`{path.show(t)}`) is counted {g.get(t, 0)} time(s) although its emissions are summed once')
+        foreign = _Lin([(c, s) for c, s in got.terms if s.text not in w], 0)
+        if foreign.coefs():
+            why.append(f'`{path.show(foreign)}` is added, which is not the reported fuel of any summed component')
+        if got.const != want.const:
+            why.append(f'a constant {got.const - want.const} is added')
+        line = next((kw_.value.lineno for kw_ in getattr(getattr(ret, 'node', None), 'keywords', []) if kw_.arg == 'total_fuel_burn'),
+                    getattr(getattr(ret, 'node', None), 'lineno', ce.node.lineno))
+        key = '; '.join(why)
+        count[key] = count.get(key, 0) + 1
+        if key not in bad or len(path.order) < bad[key][0]:
+            bad[key] = (len(path.order), path, tf, want, line)
+    for key, (_n, path, tf, want, line) in bad.items():
+        where = 'on every path' if count[key] == n else f'on {count[key]} of {n} paths, e.g. when {_when(path)}'
+        ctx.ob('C01-R2', ce, f'Emissions.total_fuel_burn = {path.show(tf)}'[:110], False,
+               f'total fuel burn is `{path.show(tf)}` but the components whose emissions are summed report `{path.show(want)}` '
+               f'({where}): {key} - total_fuel_burn ≠ fuel burned by exactly the summed components', line=line)
+    if not bad:
+        ctx.ob('C01-R2', ce, 'Emissions.total_fuel_burn = Σ fuel_burn of the summed components', n > 0,
+               f'on each of {n} path(s) the reported total is the sum of the reported fuel of trajectory, LTO, APU and GSE - each once, an '
+               'unset component counting zero' if n else 'no path could be judged')
+    return inv
 
 
 def rule_fuel(ctx):
     prog = ctx.prog
     m = prog.module(EM)
     ce = m.func('compute_emissions')
-    defs = [s for t, s, how in stores_to(ce.node) if isinstance(t, ast.Name) and t.id == 'total_fuel_burn']
-    comps = {}
-    def terms(e):
-        """the summands of e (`a + b + c`, float() looked through)"""
-        while isinstance(e, ast.Call) and call_name(e) == 'float' and len(e.args) == 1 and not e.keywords:
-            e = e.args[0]
-        if isinstance(e, ast.BinOp) and isinstance(e.op, ast.Add):
-            return terms(e.left) + terms(e.right)
-        return [e]
-
-    for s in defs:
-        cs = []
-        for tm in terms(s.value):
-            x = next((y for y in _stands_for(ce.node, tm) if isinstance(y, ast.Attribute)), tm)
-            cs.append(x.value.id if isinstance(x, ast.Attribute) and x.attr == 'fuel_burn' and isinstance(x.value, ast.Name) else None)
-        ok_form = (isinstance(s, (ast.Assign, ast.AnnAssign)) or (isinstance(s, ast.AugAssign) and isinstance(s.op, ast.Add))) and None not in cs
-        if not ok_form:
-            ctx.ob('C01-R2', ce, norm(s), False, 'total fuel burn is updated by something that is not a component\'s fuel', line=s.lineno)
-            continue
-        for c in cs:
-            comps.setdefault(c, []).append(s)
-    summed = {'trajectory', 'lto', 'apu', 'gse'}
-    for c in sorted(summed | set(comps)):
-        ss = comps.get(c, [])
-        ok = len(ss) == 1 and c in summed
-        why = 'fuel of a summed component counted once'
-        if len(ss) != 1:
-            why = f'fuel of `{c}` is counted {len(ss)} times although its emissions are summed once'
-        ctx.ob('C01-R2', ce, f'{c}.fuel_burn in total_fuel_burn', ok, why, line=(ss[0].lineno if ss else ce.node.lineno))
-        if ss:
-            comp_def = [s for t, s, how in stores_to(ce.node) if isinstance(t, ast.Name) and t.id == c
-                        and isinstance(s.value, ast.Call) and call_name(s.value).lower().startswith('get_')]
-            same = bool(comp_def) and getattr(comp_def[0], '_parent', None) is getattr(ss[0], '_parent', None) \
-                and comp_def[0].lineno < ss[0].lineno
-            ctx.ob('C01-R2', ce, f'{c} fuel added where {c} is computed', same,
-                   'same control region' if same else f'{c} fuel is added under a different condition than its computation',
-                   line=ss[0].lineno)
-    first = defs[0] if defs else None
-    ok = first is not None and isinstance(first, (ast.Assign, ast.AnnAssign))
-    ctx.ob('C01-R2', ce, 'total starts from the first component (no stale value)', ok, norm(first) if ok else 'total_fuel_burn is not initialised by assignment', nontrivial=False)
+    _rule_total_fuel(ctx)
     # the array handed to the trajectory producer as its per-segment fuel - under whatever local name(s) - is
     # zeros_like(fuel_mass) with exactly one store, [1:] = fuel_mass[:-1] - fuel_mass[1:]
     tc = next((c for c in calls_in(ce.node) if call_name(c) == 'get_trajectory_emissions'), None)
@@ -389,6 +1722,24 @@ def rule_fuel(ctx):
     ctx.ob('C01-R3', ce, 'trajectory producer receives that per-segment fuel', ok,
            f'`{norm(arg)}` is passed as `{t_fuel}`, the array that multiplies the indices' if ok else
            'cannot find what is passed as the per-segment fuel', nontrivial=False)
+    # ... and it is the array the record reports as fuel_burn_per_segment (path by path, whatever it is called)
+    _ce, _st, inv = _inventory(ctx)
+    bad_seg, n_seg = None, 0
+    for r in inv:
+        path, ret = r['path'], r['ret']
+        call = next((c for c in path.calls if c.callee is not None and c.callee.node is tfi.node), None)
+        given = call.args.get(t_fuel) if call is not None and isinstance(call.args, dict) else None
+        if given is None or 'fuel_burn_per_segment' not in ret.fields:
+            continue
+        n_seg += 1
+        if not _same(path, ret.fields['fuel_burn_per_segment'], given) and bad_seg is None:
+            bad_seg = (path.show(ret.fields['fuel_burn_per_segment']), path.show(given),
+                       next((k.value.lineno for k in getattr(getattr(ret, 'node', None), 'keywords', []) if k.arg == 'fuel_burn_per_segment'), ce.node.lineno))
+    if n_seg:
+        ctx.ob('C01-R3', ce, 'Emissions.fuel_burn_per_segment is the array the trajectory amounts were formed with', bad_seg is None,
+               f'the array passed as `{t_fuel}` on each of {n_seg} path(s)' if bad_seg is None else
+               f'field `fuel_burn_per_segment` reports `{bad_seg[0]}` while the trajectory amounts are the indices times `{bad_seg[1]}`: '
+               'per-segment amount ≠ index × reported segment fuel', line=(bad_seg[2] if bad_seg else ce.node.lineno), nontrivial=False)
     chain = _stands_for(ce.node, arg) if arg is not None else []
     names = {x.id for x in chain if isinstance(x, ast.Name)}
 
@@ -872,15 +2223,23 @@ def rule_amounts(ctx):
     ctx.ob('C01-R3', af, 'APU fuel = fuel flow × time', ok, norm(fb) if ok else 'APU fuel changed', nontrivial=False)
     # GSE: CO2 amount and fuel are tied by the fuel's CO2 index
     gf = prog.func(GSE, 'get_GSE_emissions')
-    g = single_def_value(gf.node, 'gse_fuel')
-    ok = g is not None and norm(g) == 'gse[Species.CO2] / fuel.EI_CO2'
-    h = [s for t, s, how in stores_to(gf.node) if norm(t) == 'gse[Species.H2O]']
-    ok = ok and len(h) == 1 and norm(h[0].value) in ('fuel.EI_H2O * gse_fuel', 'gse_fuel * fuel.EI_H2O')
+    gfl = _subset_fields(prog, gf) or {}
+    gmap = gfl['emissions'].id if isinstance(gfl.get('emissions'), ast.Name) else None
+    if gmap is None or 'fuel_burn' not in gfl:
+        ctx.undecided('C01-R3', gf, 'return EmissionsSubset(emissions=…, fuel_burn=…)', 'the GSE producer\'s return is not recognised')
+    # the reported fuel - under whatever local name - is the CO2 amount over the fuel's CO2 index; H2O uses that value
+    fchain = _stands_for(gf.node, gfl['fuel_burn'])
+    fnames = {x.id for x in fchain if isinstance(x, ast.Name)}
+    ok = any(norm(x) == f'{gmap}[Species.CO2] / fuel.EI_CO2' for x in fchain)
+    h = [s for t, s, how in stores_to(gf.node) if norm(t) == f'{gmap}[Species.H2O]']
+    ops = _product_operands(gf.node, h[0].value) if len(h) == 1 else None
+    ok = ok and bool(ops) and len(ops) == 2 and any(
+        norm(a_) == 'fuel.EI_H2O' and ((isinstance(b_, ast.Name) and b_.id in fnames) or _same_value(gf.node, b_, gfl['fuel_burn']))
+        for a_, b_ in (ops, ops[::-1]))
     ctx.ob('C01-R3', gf, 'GSE fuel = CO2 / EI_CO2 and H2O = EI_H2O × that fuel', ok,
            'CO2 and H2O amounts equal the fuel\'s EI times the GSE fuel' if ok else 'GSE fuel and its CO2/H2O amounts are inconsistent')
-    ret = [n for n in walk_no_nested(gf.node) if isinstance(n, ast.Return)]
-    kw = {k.arg: norm(k.value) for k in ret[0].value.keywords} if ret else {}
-    ok = kw == {'emissions': 'gse', 'fuel_burn': 'gse_fuel'}
+    kw = {k: norm(v) for k, v in gfl.items()}
+    ok = set(kw) == {'emissions', 'fuel_burn'} and norm(gfl['fuel_burn']) != gmap
     ctx.ob('C01-R3', gf, f'GSE returns {kw}', ok, 'amounts and fuel' if ok else 'GSE returns crossed fields', nontrivial=False)
 
 
@@ -1132,25 +2491,36 @@ def _constant_shares(prog, fi, mp, base_key):
     species, or produced by a loop over a constant table of (species, share) rows.  A share that is not a known
     number is recorded as None."""
     fn = fi.node
-    base = f'{mp}[{base_key}]'
+    maps = {mp, *_staging_maps(fn, mp)}
+    # the base value: the element kept under base_key (of the map or of a staging map merged into it), or the very
+    # value stored there when that is one call-free expression (it reads the same things wherever it is written)
+    bases = {f'{m}[{base_key}]' for m in maps}
+    kept = _keyed_values(prog, fi, mp).get(base_key.split('.')[-1], [])
+    if len(kept) == 1 and kept[0][0] is not None and not guards_of(kept[0][1]):
+        for x in _stands_for(fn, kept[0][0]):
+            if not any(isinstance(y, ast.Call) for y in ast.walk(x)) and not isinstance(x, ast.Constant):
+                bases.add(norm(x))
     out = {}
+
+    def mentions(e):
+        return any(b in norm(x) for x in _stands_for(fn, e) for b in bases)
 
     def share_of(v, at, bind=None):
         ops = _product_operands(fn, v)
         if not ops or len(ops) != 2:
             return None
         for a, b in (ops, ops[::-1]):
-            if any(norm(x) == base for x in _stands_for(fn, a)):
+            if any(norm(x) in bases for x in _stands_for(fn, a)):
                 if bind is not None and isinstance(b, ast.Name) and b.id == bind[0]:
                     return _const_number(prog, fi, bind[1])
                 return _const_number(prog, fi, b)
         return None
 
     for t, st, how in stores_to(fn):
-        if not (isinstance(t, ast.Subscript) and norm(t.value) == mp and how == 'assign'):
+        if not (isinstance(t, ast.Subscript) and norm(t.value) in maps and how == 'assign'):
             continue
         if isinstance(t.slice, ast.Attribute) and norm(t.slice.value) == 'Species':
-            if base in norm(st.value) or any(base in norm(x) for x in _stands_for(fn, st.value)):
+            if mentions(st.value):
                 out.setdefault(t.slice.attr, []).append(None if guards_of(st) else share_of(st.value, st))
         elif isinstance(t.slice, ast.Name):
             # for k, c in TABLE.items() / for k, c in PAIRS: mp[k] = mp[base] * c
@@ -1347,7 +2717,7 @@ def rule_speciation(ctx):
     # GSE split: which constant share of GSE NOx each of NO / NO2 / HONO receives - from single stores or from a
     # loop over a constant table (dict / sequence of pairs; local, module-level or imported)
     gf = prog.func(GSE, 'get_GSE_emissions')
-    shares = _constant_shares(prog, gf, 'gse', 'Species.NOx')
+    shares = _constant_shares(prog, gf, _amounts_map(ctx, gf, 'gse'), 'Species.NOx')
     tot = Fraction(0)
     n = 0
     for sp_ in ('NO', 'NO2', 'HONO'):
@@ -1422,13 +2792,19 @@ def rule_speciation(ctx):
     ctx.ob('C01-R5', af, 'APU NOx index is the one that was speciated', ok, nox_txt if ok else 'the APU NOx index is not written exactly once', nontrivial=False)
     # LTO: wherever in lto.py the four NOx-family indices are written (a helper of their own, or the producer
     # itself), NO / NO2 / HONO are the *same* NOx index times their own fraction of one NOx_speciation() result
-    sites = {}
+    sites, seen_st = {}, set()
+    from ..resolve import closure
+    live = {id(f.node) for f in closure(prog, [prog.func(LTO, 'get_LTO_emissions')])}
     for fi_ in prog.module(LTO).functions.values():
+        if id(fi_.node) not in live:
+            continue                        # nothing the LTO producer runs (a helper left behind unused)
         maps = {norm(t.value) for t, st, how in stores_to(fi_.node) if isinstance(t, ast.Subscript) and isinstance(t.value, ast.Name)}
-        for mp_ in sorted(maps):
+        staged = {l_ for m_ in maps for l_ in _staging_maps(fi_.node, m_)}
+        for mp_ in sorted(maps - staged):
             for k_, vals in _keyed_values(prog, fi_, mp_).items():
                 if k_ in ('NOx', 'NO', 'NO2', 'HONO'):
-                    sites.setdefault(k_, []).extend((fi_, v_, st_, mp_) for v_, st_ in vals)
+                    sites.setdefault(k_, []).extend((fi_, v_, st_, mp_) for v_, st_ in vals if id(st_) not in seen_st)
+                    seen_st.update(id(st_) for _v, st_ in vals)
     ctx.floor('C01-R5/lto', len(sites), 4, 'NOx-family species written in lto.py')
     nx = sites.get('NOx', [])
     lf = nx[0][0]
@@ -1559,6 +2935,30 @@ def _proportion(fi, e):
     return None
 
 
+def _staging_maps(fn, mp):
+    """local names L of maps that are only a staging area for `mp`: bound once to a new empty map (`SpeciesValues[…]()`,
+    `dict()`, `{}`), filled and read element by element (`L[k] = v`, `… L[k] …`) and merged by one `mp.update(L)` - what
+    an inlined `mp.update(helper(…))` looks like.  A store into L is then a store into mp."""
+    out = []
+    for st in walk_no_nested(fn):
+        if not (isinstance(st, ast.Expr) and isinstance(st.value, ast.Call) and isinstance(st.value.func, ast.Attribute)
+                and st.value.func.attr == 'update' and norm(st.value.func.value) == mp and len(st.value.args) == 1
+                and not st.value.keywords and isinstance(st.value.args[0], ast.Name)):
+            continue
+        name = st.value.args[0].id
+        v = single_def_value(fn, name)
+        new = (isinstance(v, ast.Call) and not v.args and not v.keywords and (call_name(v).split('[')[0].split('.')[-1][:1].isupper()
+                                                                           or call_name(v) == 'dict')) \
+            or (isinstance(v, ast.Dict) and not v.keys)
+        if not new:
+            continue
+        uses = [n for n in walk_no_nested(fn) if isinstance(n, ast.Name) and n.id == name]
+        elementwise = [n for n in uses if isinstance(getattr(n, '_parent', None), ast.Subscript) and n._parent.value is n]
+        if len(uses) == len(elementwise) + 2:          # + the binding and the update
+            out.append(name)
+    return out
+
+
 def _keyed_values(prog, fi, mp):
     """Species name -> [(value expression or None, statement)] for everything function fi stores into the species map
     `mp` under a constant Species key: `mp[Species.K] = V`; one of several unpacked targets (value None unless the
@@ -1576,8 +2976,9 @@ def _keyed_values(prog, fi, mp):
         def visit_Name(self, n):
             return copy.deepcopy(self.val) if n.id == self.name and isinstance(n.ctx, ast.Load) else n
 
+    maps = {mp, *_staging_maps(fn, mp)}
     for t, st, how in stores_to(fn):
-        if not (isinstance(t, ast.Subscript) and norm(t.value) == mp and how in ('assign', 'ann')):
+        if not (isinstance(t, ast.Subscript) and norm(t.value) in maps and how in ('assign', 'ann')):
             continue
         v = getattr(st, 'value', None)
         if isinstance(st, ast.Assign) and not any(tg is t for tg in st.targets):
